@@ -488,8 +488,13 @@ theorem plain_not_comma {t : Tok L} (h : t.isPlain = true) : t.isComma = false :
 theorem plain_not_colon {t : Tok L} (h : t.isPlain = true) : t.isColon = false := by
   cases t <;> simp_all [Tok.isPlain, Tok.isColon]
 
-theorem fmtStep_plain (F : FmtFacts) (s : Step L) : ∀ t ∈ fmtStep F s, t.isPlain = true := by
-  cases s <;> rw [fmtStep] <;> (try split) <;> simp [Tok.isPlain]
+
+theorem wrapSeq_plain (k : Kind) (n : Nat) (body : List (Tok L)) :
+    ∀ t ∈ wrapSeq k n body, t.isPlain = true := by
+  cases k <;> simp only [wrapSeq] <;> (try split) <;> simp [Tok.isPlain]
+
+theorem wrapSeq_ne_nil (k : Kind) (n : Nat) (body : List (Tok L)) : wrapSeq k n body ≠ [] := by
+  cases k <;> simp only [wrapSeq] <;> (try split) <;> simp
 
 theorem assemblePath_plain (aware : Bool) (root : String) (xs : List (Step L × List (Tok L)))
     (h : ∀ x ∈ xs, ∀ t ∈ x.2, t.isPlain = true) :
@@ -543,16 +548,46 @@ theorem assembleT_plain (aware : Bool) (root : String) (xs : List (Step L × Lis
     · rfl
     · exact h x hx t htx
 
-theorem fmtArg_plain (F : FmtFacts) (a : Arg L) : ∀ t ∈ fmtArg F a, t.isPlain = true := by
-  cases a with
-  | lit v => rw [fmtArg]; simp [Tok.isPlain]
-  | t root steps =>
-    rw [fmtArg]
-    apply assembleT_plain
-    intro x hx t ht
-    simp only [List.mem_map] at hx
-    obtain ⟨s, _, rfl⟩ := hx
-    exact fmtStep_plain F s t ht
+
+mutual
+  theorem fmtArg_plain (F : FmtFacts) : ∀ (a : Arg L), ∀ t ∈ fmtArg F a, t.isPlain = true
+    | .lit v => by rw [fmtArg]; simp [Tok.isPlain]
+    | .t root steps => by
+      have h : ∀ s ∈ steps, ∀ t ∈ fmtStep F s, t.isPlain = true := fun s _ => fmtStep_plain F s
+      rw [fmtArg]
+      apply assembleT_plain
+      intro x hx t ht
+      simp only [List.mem_map] at hx
+      obtain ⟨s, hs, rfl⟩ := hx
+      exact h s hs t ht
+    | .seq k xs => by rw [fmtArg]; exact wrapSeq_plain _ _ _
+    | .dict kvs => by rw [fmtArg]; simp [Tok.isPlain]
+    | .sliceObj a b c => by rw [fmtArg]; simp [Tok.isPlain]
+    | .path root steps => by
+      have h : ∀ s ∈ steps, ∀ t ∈ fmtStep F s, t.isPlain = true := fun s _ => fmtStep_plain F s
+      rw [fmtArg]
+      apply assemblePath_plain
+      intro x hx t ht
+      simp only [List.mem_map] at hx
+      obtain ⟨s, hs, rfl⟩ := hx
+      exact h s hs t ht
+    | .bad s => by rw [fmtArg]; simp [Tok.isPlain]
+    | .fill => by rw [fmtArg]; simp [Tok.isPlain]
+    | .deep k => by rw [fmtArg]; exact wrapSeq_plain _ _ _
+    | .dictMore kvs => by rw [fmtArg]; simp [Tok.isPlain]
+  termination_by a => sizeOf a
+  decreasing_by all_goals c18_dec
+  theorem fmtStep_plain (F : FmtFacts) : ∀ (s : Step L), ∀ t ∈ fmtStep F s, t.isPlain = true
+    | .seg a => by rw [fmtStep]; exact fmtArg_plain F a
+    | .attr n => by rw [fmtStep]; split <;> simp [Tok.isPlain]
+    | .item i => by rw [fmtStep]; simp [Tok.isPlain]
+    | .items is => by rw [fmtStep]; split <;> simp [Tok.isPlain]
+    | .call args kwargs => by rw [fmtStep]; simp [Tok.isPlain]
+    | .star => by rw [fmtStep]; simp [Tok.isPlain]
+    | .starstar => by rw [fmtStep]; simp [Tok.isPlain]
+  termination_by s => sizeOf s
+  decreasing_by all_goals c18_dec
+end
 
 theorem assemblePath_ne_nil (aware : Bool) (root : String) (xs : List (Step L × List (Tok L))) :
     assemblePath aware root xs ≠ [] := by
@@ -560,12 +595,20 @@ theorem assemblePath_ne_nil (aware : Bool) (root : String) (xs : List (Step L ×
 
 theorem fmtArg_ne_nil (F : FmtFacts) (a : Arg L) : fmtArg F a ≠ [] := by
   cases a with
-  | lit v => rw [fmtArg]; simp
   | t root steps =>
     rw [fmtArg]; unfold assembleT
     split
     · exact assemblePath_ne_nil _ _ _
     · simp
+  | path root steps => rw [fmtArg]; exact assemblePath_ne_nil _ _ _
+  | seq k xs => rw [fmtArg]; exact wrapSeq_ne_nil _ _ _
+  | deep k => rw [fmtArg]; exact wrapSeq_ne_nil _ _ _
+  | _ => rw [fmtArg]; simp
+
+theorem fmtStep_ne_nil (F : FmtFacts) (s : Step L) : fmtStep F s ≠ [] := by
+  cases s with
+  | seg a => rw [fmtStep]; exact fmtArg_ne_nil F a
+  | _ => rw [fmtStep] <;> (try split) <;> simp
 
 /-! ### unfolding the parser -/
 
@@ -618,6 +661,59 @@ theorem parseArg_root (r : String) (rest : List (Tok L)) :
     parseArg (.root r :: rest) = (parseSteps rest).map (Arg.t r) := by
   rw [parseArg]
 
+
+theorem parseArg_par (ch : List (Tok L)) : parseArg [Tok.par ch] =
+    if ch.isEmpty then some (.seq .tuple [])
+    else if (splitOn Tok.isComma ch).length == 1 then parseArg ch
+    else (parseElems ch).map (Arg.seq .tuple) := by
+  rw [parseArg]
+
+theorem parseArg_br (ch : List (Tok L)) :
+    parseArg [Tok.br ch] = (parseElems ch).map (Arg.seq .list) := by
+  rw [parseArg]
+
+theorem parseArg_brace (ch : List (Tok L)) : parseArg [Tok.brace ch] =
+    if ch.isEmpty then some (.dict [])
+    else if ch.any Tok.isColon then (parseEntries ch).map Arg.dict
+    else (parseElems ch).map (Arg.seq .set) := by
+  rw [parseArg]
+
+theorem parseArg_path (ch : List (Tok L)) : parseArg [Tok.name "Path", Tok.par ch] =
+    if ch.isEmpty then some (.path "T" []) else pathOfParts (parseElems ch) := by
+  rw [parseArg]; simp
+
+theorem parseArg_slice (ch : List (Tok L)) :
+    parseArg [Tok.name "slice", Tok.par ch] = sliceOfArgs (parseElems ch) := by
+  rw [parseArg]; simp
+
+theorem parseArg_set : parseArg [Tok.name "set", Tok.par ([] : List (Tok L))] = some (.seq .set []) := by
+  rw [parseArg]; simp
+
+theorem parseArg_frozenset0 :
+    parseArg [Tok.name "frozenset", Tok.par ([] : List (Tok L))] = some (.seq .frozenset []) := by
+  rw [parseArg]; simp
+
+theorem parseArg_frozenset (ch : List (Tok L)) (hne : ch.isEmpty = false) :
+    parseArg [Tok.name "frozenset", Tok.par ch] = frozensetOf (parseArg ch) := by
+  rw [parseArg]; simp [hne]
+
+theorem parseElems_def (toks : List (Tok L)) : parseElems toks =
+    allSome ((dropTrailingEmpty (splitOn Tok.isComma toks)).map parseArg) := by
+  rw [parseElems]
+  rw [List.attach_map_val (l := dropTrailingEmpty (splitOn Tok.isComma toks)) (f := parseArg)]
+
+theorem parseEntry_def (toks : List (Tok L)) : parseEntry toks =
+    match splitOn Tok.isColon toks with
+    | [k, v] => pairOpt (parseArg k) (parseArg v)
+    | _ => none := by
+  rw [parseEntry]
+  split <;> simp_all
+
+theorem parseEntries_def (toks : List (Tok L)) : parseEntries toks =
+    allSome ((dropTrailingEmpty (splitOn Tok.isComma toks)).map parseEntry) := by
+  rw [parseEntries]
+  rw [List.attach_map_val (l := dropTrailingEmpty (splitOn Tok.isComma toks)) (f := parseEntry)]
+
 theorem parseItem_def (toks : List (Tok L)) : parseItem toks =
     match splitOn Tok.isColon toks with
     | [p] => (parseArg p).map Item.one
@@ -656,33 +752,40 @@ theorem parseCall_def (toks : List (Tok L)) : parseCall toks =
 /-- the formatter of the repaired tree: all three switches on -/
 def F1 : FmtFacts := ⟨true, true, true, true⟩
 
-def Tok.isHead : Tok L → Bool
-  | .lit _ | .root _ | .name _ => true
-  | _ => false
+theorem stripKw_fmtArg (F : FmtFacts) (a : Arg L) : stripKw (fmtArg F a) = (none, fmtArg F a) := by
+  have hne := fmtArg_ne_nil F a
+  have hp := fmtArg_plain F a
+  cases h : fmtArg F a with
+  | nil => exact absurd h hne
+  | cons t rest =>
+    have := hp t (by rw [h]; simp)
+    cases t <;> simp_all [stripKw, Tok.isPlain]
 
-theorem fmtArg_head (F : FmtFacts) (a : Arg L) :
-    ∃ t rest, fmtArg F a = t :: rest ∧ t.isHead = true := by
+theorem isUnitTok_append (x rest : List (Tok L)) (hx : x ≠ []) (hr : rest ≠ []) :
+    isUnitTok (x ++ rest) = false := by
+  cases x with
+  | nil => exact absurd rfl hx
+  | cons a x' =>
+    cases rest with
+    | nil => exact absurd rfl hr
+    | cons b r' => cases x' <;> simp [isUnitTok]
+
+/-- an index that is not a tuple is not printed `()` -/
+theorem fmtArg_atom_not_unit (F : FmtFacts) (a : Arg L) (h : a.isTuple = false) :
+    isUnitTok (fmtArg F a) = false := by
   cases a with
-  | lit v => exact ⟨.lit v, [], by rw [fmtArg], rfl⟩
   | t root steps =>
     rw [fmtArg]; unfold assembleT
     split
-    · unfold assemblePath
-      split
-      · exact ⟨_, _, rfl, rfl⟩
-      · exact ⟨_, _, rfl, rfl⟩
-    · exact ⟨_, _, rfl, rfl⟩
-
-theorem stripKw_fmtArg (F : FmtFacts) (a : Arg L) : stripKw (fmtArg F a) = (none, fmtArg F a) := by
-  obtain ⟨t, rest, h, ht⟩ := fmtArg_head F a
-  rw [h]
-  cases t <;> simp_all [stripKw, Tok.isHead]
-
-theorem fmtArg_not_unit (F : FmtFacts) (a : Arg L) (rest : List (Tok L)) :
-    isUnitTok (fmtArg F a ++ rest) = false := by
-  obtain ⟨t, r, h, ht⟩ := fmtArg_head F a
-  rw [h]
-  cases t <;> simp_all [isUnitTok, Tok.isHead]
+    · unfold assemblePath; split <;> simp [isUnitTok]
+    · simp [isUnitTok]
+  | path root steps => rw [fmtArg]; unfold assemblePath; split <;> simp [isUnitTok]
+  | seq k xs =>
+    cases k with
+    | tuple => simp [Arg.isTuple] at h
+    | _ => rw [fmtArg]; simp only [wrapSeq] <;> (try split) <;> simp [isUnitTok]
+  | deep k => cases k <;> (rw [fmtArg]; simp [wrapSeq, isUnitTok])
+  | _ => rw [fmtArg]; simp [isUnitTok]
 
 theorem fmtArg_noComma (F : FmtFacts) (a : Arg L) : ∀ t ∈ fmtArg F a, t.isComma = false :=
   fun t ht => plain_not_comma (fmtArg_plain F a t ht)
@@ -733,17 +836,28 @@ theorem fmtItem_ne_nil (F : FmtFacts) (i : Item L) : fmtItem F i ≠ [] := by
   | one a => rw [fmtItem]; exact fmtArg_ne_nil F a
   | slice a b c => rw [fmtItem_slice]; simp
 
-theorem fmtItem_not_unit (F : FmtFacts) (i : Item L) (rest : List (Tok L)) :
-    isUnitTok (fmtItem F i ++ rest) = false := by
+
+theorem fmtItem_not_unit_rest (F : FmtFacts) (i : Item L) (rest : List (Tok L)) (hr : rest ≠ []) :
+    isUnitTok (fmtItem F i ++ rest) = false :=
+  isUnitTok_append _ _ (fmtItem_ne_nil F i) hr
+
+theorem validItem_one (a : Arg L) :
+    validItem (.one a) = true ↔ validArg a = true ∧ a.isSliceObj = false := by
+  rw [validItem]; simp
+
+theorem fmtItem_not_unit (F : FmtFacts) (i : Item L) (hv : i.isAtom = true) :
+    isUnitTok (fmtItem F i) = false := by
   cases i with
-  | one a => rw [fmtItem]; exact fmtArg_not_unit F a rest
+  | one a =>
+    rw [fmtItem]
+    exact fmtArg_atom_not_unit F a (by simpa [Item.isAtom] using hv)
   | slice a b c =>
     rw [fmtItem_slice]
     cases a with
     | none => simp [fmtOpt, isUnitTok]
     | some x =>
       simp only [fmtOpt, List.append_assoc]
-      exact fmtArg_not_unit F x _
+      exact isUnitTok_append _ _ (fmtArg_ne_nil F x) (by simp)
 
 theorem assembleT_noseg (F : FmtFacts) (root : String) (steps : List (Step L))
     (h : ∀ s ∈ steps, s.isSeg = false) :
@@ -770,7 +884,6 @@ theorem all_id_map {α} (f : α → Bool) (xs : List α) :
     (xs.map f).all id = true ↔ ∀ x ∈ xs, f x = true := by
   simp [List.all_eq_true]
 
-
 /-! ### indexes with a tuple, and calls -/
 
 theorem joinSep_cons_cons (sep : Tok L) (p q : List (Tok L)) (r : List (List (Tok L))) :
@@ -796,7 +909,7 @@ theorem parseIndex_items (is : List (Item L)) (hne : is ≠ [])
   | [i], _, hi =>
     simp only [itemsToks, List.map_cons, List.map_nil, joinSep, List.length_singleton, beq_self_eq_true,
       if_true]
-    rw [fmtItem_not_unit F1 i [Tok.comma]]
+    rw [fmtItem_not_unit_rest F1 i [Tok.comma] (by simp)]
     simp only [Bool.false_eq_true, if_false]
     rw [splitOn_append_sep _ _ _ _ (fmtItem_noComma F1 i) rfl]
     simp only [splitOn, dropTrailingEmpty, List.getLast?, List.getLast, List.dropLast, List.map_cons,
@@ -806,7 +919,7 @@ theorem parseIndex_items (is : List (Item L)) (hne : is ≠ [])
     simp only [itemsToks, hlen, Bool.false_eq_true, if_false, List.append_nil]
     have hu : isUnitTok (joinSep Tok.comma ((i :: j :: r).map (fun i => fmtItem F1 i))) = false := by
       simp only [List.map_cons, joinSep_cons_cons]
-      exact fmtItem_not_unit F1 i _
+      exact fmtItem_not_unit_rest F1 i _ (by simp)
     rw [hu]
     simp only [Bool.false_eq_true, if_false]
     rw [splitOn_joinSep _ _ rfl _ (by simp) (by
@@ -996,139 +1109,187 @@ theorem parseOpt_fmt (a : Option (Arg L))
       simp only [List.isEmpty_eq_false_iff]; exact fmtArg_ne_nil F1 x
     simp only [fmtOpt, hne, Bool.false_eq_true, if_false, ih x rfl, Option.map_some]
 
-mutual
-  theorem parseArg_fmt : ∀ (a : Arg L), validArg a = true →
-      parseArg (fmtArg F1 a) = some (normArg a)
-    | .lit v, _ => by rw [fmtArg, parseArg_lit, normArg]
-    | .t root steps, hv => by
-      rw [validArg_t] at hv
-      rw [fmtArg, assembleT_noseg F1 root steps (fun s hs => (hv s hs).1), parseArg_root,
-        parseSteps_flatMap F1 steps (fun s hs rest =>
-          parseStep_fmt s (hv s hs).2 (hv s hs).1 rest), normArg]
-      rfl
-  termination_by a => sizeOf a
-  decreasing_by all_goals c18_dec
+/-! ### displays: tuples, lists, sets, frozensets, dicts, slice objects -/
 
-  theorem parseItem_fmt : ∀ (i : Item L), validItem i = true →
-      parseItem (fmtItem F1 i) = some (normItem i)
-    | .one a, hv => by
-      unfold validItem at hv
-      rw [fmtItem, parseItem_def, splitOn_noSep _ _ (fmtArg_noColon F1 a)]
-      simp only [parseArg_fmt a hv, Option.map_some, normItem]
-    | .slice a b none, hv => by
-      unfold validItem at hv
-      simp only [Bool.and_eq_true] at hv
-      have ha := parseOpt_fmt a (fun x hx => parseArg_fmt x (by subst hx; exact hv.1.1))
-      have hb := parseOpt_fmt b (fun x hx => parseArg_fmt x (by subst hx; exact hv.1.2))
-      rw [fmtItem_slice, parseItem_def, normItem_slice]
-      simp only [List.append_nil, List.append_assoc, List.singleton_append]
-      rw [splitOn_append_sep _ _ _ _ (fmtOpt_noColon F1 a) rfl,
-        splitOn_noSep _ _ (fmtOpt_noColon F1 b)]
-      simp only [ha, hb, slice3, Option.map_none]
-    | .slice a b (some x), hv => by
-      unfold validItem at hv
-      simp only [Bool.and_eq_true] at hv
-      have ha := parseOpt_fmt a (fun y hy => parseArg_fmt y (by subst hy; exact hv.1.1))
-      have hb := parseOpt_fmt b (fun y hy => parseArg_fmt y (by subst hy; exact hv.1.2))
-      have hne : (fmtArg F1 x).isEmpty = false := by
-        simp only [List.isEmpty_eq_false_iff]; exact fmtArg_ne_nil F1 x
-      have hc := parseArg_fmt x hv.2
-      rw [fmtItem_slice, parseItem_def, normItem_slice]
-      simp only [List.append_assoc, List.cons_append, List.nil_append]
-      rw [splitOn_append_sep _ _ _ _ (fmtOpt_noColon F1 a) rfl,
-        splitOn_append_sep _ _ _ _ (fmtOpt_noColon F1 b) rfl,
-        splitOn_noSep _ _ (fmtArg_noColon F1 x)]
-      simp only [ha, hb, hc, hne, slice3, Bool.false_eq_true, if_false, Option.map_some]
-  termination_by i => sizeOf i
-  decreasing_by
-    all_goals simp_wf
-    all_goals (try subst_vars)
-    all_goals (first | omega | (simp <;> omega))
+/-- the elements of a display are read back one by one -/
+theorem parseElems_joinSep (xs : List (Arg L))
+    (h : ∀ x ∈ xs, parseArg (fmtArg F1 x) = some (normArg x)) :
+    parseElems (joinSep .comma (xs.map (fun x => fmtArg F1 x))) = some (xs.map normArg) := by
+  rw [parseElems_def]
+  cases xs with
+  | nil => simp [joinSep, splitOn, dropTrailingEmpty, allSome]
+  | cons x r =>
+    rw [splitOn_joinSep _ _ rfl _ (by simp) (by
+      intro p hp; simp only [List.mem_map] at hp; obtain ⟨y, _, rfl⟩ := hp
+      exact fmtArg_noComma F1 y)]
+    rw [dropTrailingEmpty_of_last_ne _ (getLast?_map_ne_nil _ _ (fun y _ => fmtArg_ne_nil F1 y))]
+    have := allSome_map_some (fun y => parseArg (fmtArg F1 y)) normArg (x :: r) h
+    simpa [List.map_map, Function.comp_def] using this
 
-  theorem parseStep_fmt : ∀ (s : Step L), validStep s = true → s.isSeg = false →
-      ∀ (rest : List (Tok L)),
-      parseSteps (fmtStep F1 s ++ rest) = (parseSteps rest).map (normStep s :: ·)
-    | .seg v, _, hs, _ => by simp [Step.isSeg] at hs
-    | .star, _, _, rest => by rw [fmtStep, normStep]; exact parseSteps_star rest
-    | .starstar, _, _, rest => by rw [fmtStep, normStep]; exact parseSteps_starstar rest
-    | .attr n, _, _, rest => by
-      rw [fmtStep, normStep]
-      by_cases hd : isDunder n = true
-      · simp only [F1, hd, Bool.and_self, if_true, List.cons_append, List.nil_append]
-        rw [parseSteps_dunder, ← (isDunder_iff n).mp hd]
-      · have hd' : isDunder n = false := by simpa using hd
-        simp only [hd', Bool.and_false, Bool.false_eq_true, if_false, List.cons_append,
-          List.nil_append]
-        exact parseSteps_dot n rest hd'
-    | .item i, hv, _, rest => by
-      unfold validStep at hv
-      rw [fmtStep, normStep]
-      simp only [List.cons_append, List.nil_append]
-      rw [parseSteps_br, parseIndex_def]
-      have hu := fmtItem_not_unit F1 i []
-      simp only [List.append_nil] at hu
-      simp only [hu, Bool.false_eq_true, if_false]
-      rw [splitOn_noSep _ _ (fmtItem_noComma F1 i)]
-      simp only [parseItem_fmt i hv, Option.map_some, consOpt_some]
-    | .items is, hv, _, rest => by
-      unfold validStep at hv
-      rw [all_id_map] at hv
-      have hi : ∀ i ∈ is, parseItem (fmtItem F1 i) = some (normItem i) :=
-        fun i hi => parseItem_fmt i (hv i hi)
-      rw [fmtStep, normStep]
-      by_cases hemp : is = []
-      · subst hemp
-        simp only [F1, List.isEmpty_nil, Bool.and_self, if_true, List.cons_append, List.nil_append,
-          List.map_nil]
-        rw [parseSteps_br, parseIndex_def]
-        simp only [isUnitTok, if_true, consOpt_some]
-      · have hne : (is.isEmpty && F1.tupleEmptyParen) = false := by
-          cases is with
-          | nil => exact absurd rfl hemp
-          | cons _ _ => rfl
-        simp only [hne, Bool.false_eq_true, if_false, List.cons_append, List.nil_append]
-        rw [parseSteps_br]
-        have := parseIndex_items is hemp hi
-        simp only [itemsToks] at this
-        have hsc : F1.singletonComma = true := rfl
-        simp only [hsc, Bool.and_true]
-        rw [this, consOpt_some]
-    | .call args kwargs, hv, _, rest => by
-      unfold validStep at hv
-      simp only [Bool.and_eq_true, all_id_map, decide_eq_true_eq] at hv
-      have ha : ∀ a ∈ args, parseArg (fmtArg F1 a) = some (normArg a) :=
-        fun a haa => parseArg_fmt a (hv.1.1 a haa)
-      have hk : ∀ p ∈ kwargs, parseArg (fmtArg F1 p.2) = some (normArg p.2) :=
-        fun p hp => parseArg_fmt p.2 (hv.1.2 p hp)
-      rw [fmtStep, normStep]
-      simp only [List.cons_append, List.nil_append]
-      rw [parseSteps_par]
-      have := parseCall_fmt args kwargs ha hk hv.2
-      simp only [callToks] at this
-      rw [this, consOpt_some]
-  termination_by s => sizeOf s
-  decreasing_by all_goals c18_dec
-end
+/-- `(x,)` -/
+theorem parseElems_single (x : Arg L) (h : parseArg (fmtArg F1 x) = some (normArg x)) :
+    parseElems (fmtArg F1 x ++ [Tok.comma]) = some [normArg x] := by
+  rw [parseElems_def, splitOn_append_sep _ _ _ _ (fmtArg_noComma F1 x) rfl]
+  simp [splitOn, dropTrailingEmpty, allSome, h]
 
-/-! ### whole objects -/
+theorem joinSep_comma_noColon (pieces : List (List (Tok L)))
+    (h : ∀ p ∈ pieces, ∀ t ∈ p, t.isColon = false) :
+    ∀ t ∈ joinSep Tok.comma pieces, t.isColon = false := by
+  induction pieces with
+  | nil => intro t ht; simp [joinSep] at ht
+  | cons p r ih =>
+    cases r with
+    | nil => simpa [joinSep] using h p (by simp)
+    | cons q r' =>
+      intro t ht
+      rw [joinSep_cons_cons] at ht
+      simp only [List.mem_append, List.mem_cons] at ht
+      rcases ht with ht | rfl | ht
+      · exact h p (by simp) t ht
+      · rfl
+      · exact ih (fun p' hp' => h p' (by simp [hp'])) t ht
 
-theorem validT_iff (steps : List (Step L)) :
-    validT steps = true ↔ ∀ s ∈ steps, s.isSeg = false ∧ validStep s = true := by
-  simp [validT, List.all_eq_true]
+theorem any_false_of_forall {α} (p : α → Bool) (l : List α) (h : ∀ x ∈ l, p x = false) :
+    l.any p = false := by
+  simp only [List.any_eq_false]
+  intro x hx; simp [h x hx]
 
-theorem parseSteps_fmt (steps : List (Step L)) (hv : validT steps = true) :
-    parseSteps (steps.flatMap (fmtStep F1)) = some (normSteps steps) := by
-  rw [validT_iff] at hv
-  exact parseSteps_flatMap F1 steps (fun s hs rest => parseStep_fmt s (hv s hs).2 (hv s hs).1 rest)
+/-- `{a, b}` -/
+theorem parseArg_setDisplay (x : Arg L) (r : List (Arg L))
+    (h : ∀ y ∈ x :: r, parseArg (fmtArg F1 y) = some (normArg y)) :
+    parseArg [Tok.brace (joinSep .comma ((x :: r).map (fun y => fmtArg F1 y)))] =
+      some (.seq .set ((x :: r).map normArg)) := by
+  have hne : (joinSep Tok.comma ((x :: r).map (fun y => fmtArg F1 y))).isEmpty = false := by
+    simp only [List.isEmpty_eq_false_iff]
+    exact joinSep_ne_nil _ _ (by simp) (by
+      intro p hp; simp only [List.mem_map] at hp; obtain ⟨y, _, rfl⟩ := hp; exact fmtArg_ne_nil F1 y)
+  have hnc : (joinSep Tok.comma ((x :: r).map (fun y => fmtArg F1 y))).any Tok.isColon = false :=
+    any_false_of_forall _ _ (joinSep_comma_noColon _ (by
+      intro p hp; simp only [List.mem_map] at hp; obtain ⟨y, _, rfl⟩ := hp; exact fmtArg_noColon F1 y))
+  rw [parseArg_brace]
+  simp only [hne, hnc, Bool.false_eq_true, if_false]
+  rw [parseElems_joinSep _ h]; rfl
 
-/-- `eval(repr(t))` of a T expression gives back its root and (normalised) steps -/
-theorem parseObj_fmtT (root : String) (steps : List (Step L)) (hv : validT steps = true) :
-    parseObj (fmtT F1 root steps) = some (.tobj root (normSteps steps)) := by
-  have hns : ∀ s ∈ steps, s.isSeg = false := fun s hs => ((validT_iff steps).mp hv s hs).1
-  unfold fmtT fmtSteps
-  rw [assembleT_noseg F1 root steps hns]
-  rw [parseObj, parseSteps_fmt steps hv]
-  rfl
+/-- every container display `reprlib` prints is read back as the container of the
+    (normalised) elements -/
+theorem parseArg_seq (k : Kind) (hk : k ≠ .dict) (xs : List (Arg L))
+    (h : ∀ x ∈ xs, parseArg (fmtArg F1 x) = some (normArg x)) :
+    parseArg (wrapSeq k xs.length (joinSep .comma (xs.map (fun x => fmtArg F1 x)))) =
+      some (.seq k (xs.map normArg)) := by
+  cases k with
+  | dict => exact absurd rfl hk
+  | list => simp only [wrapSeq]; rw [parseArg_br, parseElems_joinSep xs h]; rfl
+  | tuple =>
+    match xs, h with
+    | [], _ => simp [wrapSeq, joinSep, parseArg_par]
+    | [x], h =>
+      have hx := h x (by simp)
+      have hne : (fmtArg F1 x ++ [Tok.comma]).isEmpty = false := by
+        cases hf : fmtArg F1 x <;> simp
+      simp only [wrapSeq, List.length_singleton, beq_self_eq_true, if_true, List.map_cons, List.map_nil,
+        joinSep]
+      rw [parseArg_par]
+      simp only [hne, Bool.false_eq_true, if_false]
+      rw [splitOn_append_sep _ _ _ _ (fmtArg_noComma F1 x) rfl]
+      simp only [splitOn, List.length_cons, List.length_nil]
+      rw [parseElems_single x hx]; rfl
+    | x :: y :: r, h =>
+      have hlen : ((x :: y :: r).length == 1) = false := by simp
+      simp only [wrapSeq, hlen, Bool.false_eq_true, if_false, List.append_nil]
+      have hpne : (x :: y :: r).map (fun x => fmtArg F1 x) ≠ [] := by simp
+      have hnc : ∀ p ∈ (x :: y :: r).map (fun x => fmtArg F1 x), ∀ t ∈ p, Tok.isComma t = false := by
+        intro p hp; simp only [List.mem_map] at hp; obtain ⟨z, _, rfl⟩ := hp; exact fmtArg_noComma F1 z
+      have hne : (joinSep Tok.comma ((x :: y :: r).map (fun x => fmtArg F1 x))).isEmpty = false := by
+        simp only [List.isEmpty_eq_false_iff]
+        exact joinSep_ne_nil _ _ hpne (by
+          intro p hp; simp only [List.mem_map] at hp; obtain ⟨z, _, rfl⟩ := hp; exact fmtArg_ne_nil F1 z)
+      rw [parseArg_par]
+      simp only [hne, Bool.false_eq_true, if_false]
+      rw [splitOn_joinSep _ _ rfl _ hpne hnc]
+      simp only [List.map_cons, List.length_cons]
+      rw [show (List.length (List.map (fun x => fmtArg F1 x) r) + 1 + 1 == 1) = false by simp]
+      simp only [Bool.false_eq_true, if_false]
+      have := parseElems_joinSep (x :: y :: r) h
+      simp only [List.map_cons] at this
+      rw [this]; rfl
+  | set =>
+    match xs, h with
+    | [], _ => simp [wrapSeq, parseArg_set]
+    | x :: r, h =>
+      have h0 : (r.length + 1 == 0) = false := by simp
+      simp only [wrapSeq, List.length_cons, h0, Bool.false_eq_true, if_false]
+      exact parseArg_setDisplay x r h
+  | frozenset =>
+    match xs, h with
+    | [], _ => simp [wrapSeq, parseArg_frozenset0]
+    | x :: r, h =>
+      have h0 : (r.length + 1 == 0) = false := by simp
+      simp only [wrapSeq, List.length_cons, h0, Bool.false_eq_true, if_false]
+      rw [parseArg_frozenset _ (by simp), parseArg_setDisplay x r h]; rfl
+
+theorem parseEntry_fmt (p : Arg L × Arg L)
+    (hk : parseArg (fmtArg F1 p.1) = some (normArg p.1))
+    (hv : parseArg (fmtArg F1 p.2) = some (normArg p.2)) :
+    parseEntry (fmtArg F1 p.1 ++ Tok.colon :: fmtArg F1 p.2) = some (normArg p.1, normArg p.2) := by
+  rw [parseEntry_def, splitOn_append_sep _ _ _ _ (fmtArg_noColon F1 p.1) rfl,
+    splitOn_noSep _ _ (fmtArg_noColon F1 p.2)]
+  simp only [hk, hv, pairOpt]
+
+/-- `{k: v, …}` -/
+theorem parseArg_dict (kvs : List (Arg L × Arg L))
+    (h : ∀ p ∈ kvs, parseArg (fmtArg F1 p.1) = some (normArg p.1) ∧
+      parseArg (fmtArg F1 p.2) = some (normArg p.2)) :
+    parseArg [Tok.brace (joinSep .comma
+        (kvs.map (fun p => fmtArg F1 p.1 ++ Tok.colon :: fmtArg F1 p.2)))] =
+      some (.dict (kvs.map (fun p => (normArg p.1, normArg p.2)))) := by
+  rw [parseArg_brace]
+  cases kvs with
+  | nil => simp [joinSep]
+  | cons p r =>
+    have hpne : (p :: r).map (fun p => fmtArg F1 p.1 ++ Tok.colon :: fmtArg F1 p.2) ≠ [] := by simp
+    have hpieces_ne : ∀ x ∈ (p :: r).map (fun p => fmtArg F1 p.1 ++ Tok.colon :: fmtArg F1 p.2), x ≠ [] := by
+      intro x hx; simp only [List.mem_map] at hx; obtain ⟨q, _, rfl⟩ := hx; simp
+    have hnc : ∀ x ∈ (p :: r).map (fun p => fmtArg F1 p.1 ++ Tok.colon :: fmtArg F1 p.2),
+        ∀ t ∈ x, Tok.isComma t = false := by
+      intro x hx t ht; simp only [List.mem_map] at hx; obtain ⟨q, _, rfl⟩ := hx
+      simp only [List.mem_append, List.mem_cons] at ht
+      rcases ht with ht | rfl | ht
+      · exact fmtArg_noComma F1 q.1 t ht
+      · rfl
+      · exact fmtArg_noComma F1 q.2 t ht
+    have hne : (joinSep Tok.comma
+        ((p :: r).map (fun p => fmtArg F1 p.1 ++ Tok.colon :: fmtArg F1 p.2))).isEmpty = false := by
+      simp only [List.isEmpty_eq_false_iff]
+      exact joinSep_ne_nil _ _ hpne hpieces_ne
+    have hcol : (joinSep Tok.comma
+        ((p :: r).map (fun p => fmtArg F1 p.1 ++ Tok.colon :: fmtArg F1 p.2))).any Tok.isColon = true := by
+      simp only [List.any_eq_true]
+      refine ⟨Tok.colon, ?_, rfl⟩
+      cases r with
+      | nil => simp [joinSep]
+      | cons q r' => simp only [List.map_cons, joinSep_cons_cons]; simp
+    simp only [hne, hcol, Bool.false_eq_true, if_false, if_true]
+    rw [parseEntries_def, splitOn_joinSep _ _ rfl _ hpne hnc,
+      dropTrailingEmpty_of_last_ne _ (fun y hy => hpieces_ne y (List.mem_of_getLast? hy))]
+    have := allSome_map_some
+      (fun (q : Arg L × Arg L) => parseEntry (fmtArg F1 q.1 ++ Tok.colon :: fmtArg F1 q.2))
+      (fun q => (normArg q.1, normArg q.2)) (p :: r)
+      (fun q hq => parseEntry_fmt q (h q hq).1 (h q hq).2)
+    simp only [List.map_map, Function.comp_def] at this ⊢
+    rw [this]; rfl
+
+/-- `slice(a, b, c)` -/
+theorem parseArg_sliceObj (a b c : Arg L)
+    (ha : parseArg (fmtArg F1 a) = some (normArg a)) (hb : parseArg (fmtArg F1 b) = some (normArg b))
+    (hc : parseArg (fmtArg F1 c) = some (normArg c)) :
+    parseArg [Tok.name "slice", Tok.par (joinSep .comma [fmtArg F1 a, fmtArg F1 b, fmtArg F1 c])] =
+      some (.sliceObj (normArg a) (normArg b) (normArg c)) := by
+  rw [parseArg_slice]
+  have := parseElems_joinSep [a, b, c] (by
+    intro x hx; simp only [List.mem_cons, List.mem_nil_iff, or_false] at hx
+    rcases hx with rfl | rfl | rfl <;> assumption)
+  simp only [List.map_cons, List.map_nil] at this
+  rw [this]; rfl
 
 /-! ### Paths: grouping into parts and `Path.__init__` -/
 
@@ -1228,7 +1389,7 @@ theorem foldlM_tChild (r : String) (s : List (Step L)) :
 
 /-- the steps a parsed part contributes -/
 def partSteps : Part L → List (Step L)
-  | .plain v => [.seg v]
+  | .plain a => [.seg a]
   | .texpr _ s => s
   | .path _ s => s
 
@@ -1314,7 +1475,6 @@ theorem pathInit_ok (parts : List (Part L)) (hp : ∀ x ∈ parts, partOk x = tr
       rw [pathInit_fold "T" others (fun y hy => hp y (by simp [hy]))
         (fun h => absurd h (by decide)) s]
       simp [partSteps]
-
 /-- the text of one part of `Path(…)` -/
 def pieceToks (F : FmtFacts) (root : String) : List (Step L) ⊕ Step L → List (Tok L)
   | .inl g => .root root :: g.flatMap (fmtStep F)
@@ -1392,20 +1552,67 @@ theorem pieceToks_plain (root : String) (g : List (Step L) ⊕ Step L) :
     · exact fmtStep_plain F1 s t hts
   | inr s => exact fmtStep_plain F1 s
 
-theorem fmtStep_ne_nil (F : FmtFacts) (s : Step L) : fmtStep F s ≠ [] := by
-  cases s <;> rw [fmtStep] <;> (try split) <;> simp
-
 theorem pieceToks_ne_nil (root : String) (g : List (Step L) ⊕ Step L) :
     pieceToks F1 root g ≠ [] := by
   cases g with
   | inl l => simp [pieceToks]
   | inr s => exact fmtStep_ne_nil F1 s
 
+
+/-- a run of non-segment steps is one group -/
+theorem groupSteps_noseg {α} (p : α → Bool) (xs : List α) (hne : xs ≠ [])
+    (h : ∀ x ∈ xs, p x = false) : groupSteps p xs = [.inl xs] := by
+  have hgen : ∀ (r : List α) (s : α), (∀ x ∈ s :: r, p x = false) →
+      groupSteps p (s :: r) = [.inl (s :: r)] := by
+    intro r
+    induction r with
+    | nil => intro s h; simp [groupSteps, h s (by simp)]
+    | cons s' r' ih =>
+      intro s h
+      have := ih s' (fun x hx => h x (by simp [hx]))
+      simp only [groupSteps, h s (by simp), Bool.false_eq_true, if_false] at this ⊢
+      rw [this]
+  cases xs with
+  | nil => exact absurd rfl hne
+  | cons s r => exact hgen r s h
+
+/-- a Path without plain segments prints like the T expression with the same steps -/
+theorem fmtPath_noseg (F : FmtFacts) (root : String) (steps : List (Step L)) (hne : steps ≠ [])
+    (hns : ∀ s ∈ steps, s.isSeg = false) :
+    fmtPath F root steps = fmtT F (effRoot F.pathRootAware root) steps := by
+  have hg : groupSteps Step.isSeg steps = [.inl steps] := groupSteps_noseg _ steps hne hns
+  unfold fmtPath fmtT
+  rw [assemblePath_eq, hg]
+  simp only
+  unfold fmtSteps
+  rw [assembleT_noseg F _ steps hns]
+
+/-- the condition under which a Path prints as (and is read back as) a T expression -/
+def pathIsT (steps : List (Step L)) : Bool := !steps.isEmpty && steps.all (fun s => !s.isSeg)
+
+theorem pathIsT_iff (steps : List (Step L)) :
+    pathIsT steps = true ↔ steps ≠ [] ∧ ∀ s ∈ steps, s.isSeg = false := by
+  simp [pathIsT, List.all_eq_true]
+
+theorem normArg_path (root : String) (steps : List (Step L)) :
+    normArg (.path root steps) =
+      if pathIsT steps then .t root (normSteps steps) else .path root (normSteps steps) := by
+  rw [normArg]; rfl
+
+/-- the argument a group is read back as -/
+def argOfGroup (root : String) : List (Step L) ⊕ Step L → Arg L
+  | .inl g => .t root (normSteps g)
+  | .inr (.seg a) => normArg a
+  | .inr s => .t "T" [normStep s]      -- not produced by `groupSteps Step.isSeg`
+
 /-- the part a group is read back as -/
 def partOfGroup (root : String) : List (Step L) ⊕ Step L → Part L
   | .inl g => .texpr root (normSteps g)
-  | .inr (.seg v) => .plain v
+  | .inr (.seg a) => .plain (normArg a)
   | .inr s => .texpr "T" [normStep s]      -- not produced by `groupSteps Step.isSeg`
+
+theorem isSegArg_norm (a : Arg L) (h : a.isSegArg = true) : partOfArg (normArg a) = .plain (normArg a) := by
+  cases a <;> first | (simp [Arg.isSegArg] at h; done) | (rw [normArg]; rfl)
 
 theorem partOfGroup_ok (g : List (Step L) ⊕ Step L) : partOk (partOfGroup "T" g) = true := by
   cases g with
@@ -1419,14 +1626,14 @@ theorem partOfGroup_steps (root : String) (g : List (Step L) ⊕ Step L) :
   | inr s => cases s <;> simp [partOfGroup, partSteps, unGroup, normSteps, normStep]
 
 /-- the text `Path(part, …)` for at least one part is read back part by part -/
-theorem parseObj_path (r : String) (g0 : List (Step L) ⊕ Step L)
+theorem parseArg_pathText (r : String) (g0 : List (Step L) ⊕ Step L)
     (rest : List (List (Step L) ⊕ Step L))
-    (hp0 : parsePart (pieceToks F1 r g0) = some (partOfGroup r g0))
-    (hp : ∀ g ∈ rest, parsePart (pieceToks F1 "T" g) = some (partOfGroup "T" g))
+    (hp0 : (parseArg (pieceToks F1 r g0)).map partOfArg = some (partOfGroup r g0))
+    (hp : ∀ g ∈ rest, (parseArg (pieceToks F1 "T" g)).map partOfArg = some (partOfGroup "T" g))
     (r' : String) (st : List (Step L))
     (hinit : pathInit (partOfGroup r g0 :: rest.map (partOfGroup "T")) = some (r', st)) :
-    parseObj [.name "Path", .par (joinSep .comma (pieceList F1 r (g0 :: rest)))] =
-      some (.pobj r' st) := by
+    parseArg [.name "Path", .par (joinSep .comma (pieceList F1 r (g0 :: rest)))] =
+      some (.path r' st) := by
   have hpne : pieceList F1 r (g0 :: rest) ≠ [] := by simp [pieceList]
   have hmem : ∀ x ∈ pieceList F1 r (g0 :: rest), ∃ rt g, x = pieceToks F1 rt g := by
     intro x hx
@@ -1442,13 +1649,39 @@ theorem parseObj_path (r : String) (g0 : List (Step L) ⊕ Step L)
   have hjne : (joinSep Tok.comma (pieceList F1 r (g0 :: rest))).isEmpty = false := by
     simp only [List.isEmpty_eq_false_iff]
     exact joinSep_ne_nil _ _ hpne hpieces_ne
-  rw [parseObj]
-  simp only [hjne, Bool.false_eq_true, if_false]
-  rw [splitOn_joinSep _ _ rfl _ hpne hpieces_nc,
-    dropTrailingEmpty_of_last_ne _ (fun y hy => hpieces_ne y (List.mem_of_getLast? hy))]
-  simp only [pieceList, List.map_cons, hp0, allSome, List.map_map]
-  rw [allSome_map_some (parsePart ∘ pieceToks F1 "T") (partOfGroup "T") rest hp]
-  simp only [objOfParts, hinit, Option.map_some]
+  -- every piece is read back as some argument, which `Path.__init__` sees as the group's part
+  have hall : ∀ (gs : List (List (Step L) ⊕ Step L)) (rt : String),
+      (∀ g ∈ gs, (parseArg (pieceToks F1 rt g)).map partOfArg = some (partOfGroup rt g)) →
+      ∃ args, allSome (gs.map (fun g => parseArg (pieceToks F1 rt g))) = some args ∧
+        args.map partOfArg = gs.map (partOfGroup rt) := by
+    intro gs rt
+    induction gs with
+    | nil => intro _; exact ⟨[], rfl, rfl⟩
+    | cons g gs ih =>
+      intro h
+      obtain ⟨args, h1, h2⟩ := ih (fun g' hg' => h g' (by simp [hg']))
+      have hg := h g (by simp)
+      cases hpa : parseArg (pieceToks F1 rt g) with
+      | none => rw [hpa] at hg; simp at hg
+      | some a =>
+        rw [hpa] at hg
+        simp only [Option.map_some, Option.some.injEq] at hg
+        exact ⟨a :: args, by simp only [List.map_cons, hpa, allSome, h1], by
+          simp only [List.map_cons, hg, h2]⟩
+  obtain ⟨args, ha1, ha2⟩ := hall rest "T" hp
+  cases hpa0 : parseArg (pieceToks F1 r g0) with
+  | none => rw [hpa0] at hp0; simp at hp0
+  | some a0 =>
+    rw [hpa0] at hp0
+    simp only [Option.map_some, Option.some.injEq] at hp0
+    rw [parseArg_path]
+    simp only [hjne, Bool.false_eq_true, if_false]
+    rw [parseElems_def, splitOn_joinSep _ _ rfl _ hpne hpieces_nc,
+      dropTrailingEmpty_of_last_ne _ (fun y hy => hpieces_ne y (List.mem_of_getLast? hy))]
+    simp only [pieceList, List.map_cons, hpa0, allSome, List.map_map]
+    have ha1' : allSome (List.map (parseArg ∘ pieceToks F1 "T") rest) = some args := ha1
+    rw [ha1']
+    simp only [pathOfParts, List.map_cons, hp0, ha2, hinit, Option.map_some]
 
 theorem normStep_okOnA (s : Step L) : (normStep s).okOnA = s.okOnA := by
   cases s <;> rw [normStep] <;> rfl
@@ -1490,130 +1723,342 @@ theorem pathInit_groups (root : String) (g0 : List (Step L) ⊕ Step L)
       · exact hrest_ok x hx)]
     simp only [List.flatMap_cons, partOfGroup_steps, hrest_steps]
 
-/-- `eval(repr(p))` of a Path with any root gives back the root and the (normalised)
-    steps of `p`: as a T expression when the path is one run of non-segment steps (reading 6
-    of DESIGN.md), else as a Path -/
-theorem parseObj_fmtPath (root : String) (steps : List (Step L)) (hv : validP steps = true)
-    (hA : aOk root steps = true) :
-    (parseObj (fmtPath F1 root steps) = some (.tobj root (normSteps steps)) ∧
-      steps ≠ [] ∧ ∀ s ∈ steps, s.isSeg = false) ∨
-    parseObj (fmtPath F1 root steps) = some (.pobj root (normSteps steps)) := by
-  rw [validP_iff] at hv
-  have hAll : root = "A" → ∀ s ∈ steps, s.okOnA = true := by
-    intro hr
-    simp only [aOk, hr, bne_self_eq_false, Bool.false_or, List.all_eq_true] at hA
-    exact hA
-  unfold fmtPath
-  rw [assemblePath_eq]
-  have heff : effRoot F1.pathRootAware root = root := rfl
-  rw [heff]
-  have hflat := groupSteps_flatten Step.isSeg steps
-  have hspec := groupSteps_spec Step.isSeg steps
-  have hmem := mem_group_mem Step.isSeg steps
-  generalize groupSteps Step.isSeg steps = gs at hflat hspec hmem
-  have hsteps : normSteps steps = gs.flatMap (fun g => normSteps (unGroup g)) := by
-    rw [← hflat]; simp [normSteps, List.map_flatMap]
-  -- what every group is read back as, whichever root it is printed with
-  have hpiece : ∀ (r : String), ∀ g ∈ gs, parsePart (pieceToks F1 r g) = some (partOfGroup r g) := by
-    intro r g hg
-    cases g with
-    | inl l =>
-      have hsp := hspec _ hg
-      simp only at hsp
-      have hvl : validT l = true := by
-        rw [validT_iff]
-        intro s hs
-        exact ⟨hsp.2 s hs, hv s (hmem _ hg s (by simpa [unGroup] using hs))⟩
-      simp only [pieceToks, parsePart, parseSteps_fmt l hvl, Option.map_some, partOfGroup]
-    | inr s =>
-      have hsp := hspec _ hg
-      simp only at hsp
-      cases s with
-      | seg v => simp only [pieceToks, partOfGroup]; rw [fmtStep]; rfl
-      | _ => simp [Step.isSeg] at hsp
-  have hempty : ∀ (r : String),
-      parsePart (pieceToks F1 r (.inl ([] : List (Step L)))) = some (partOfGroup r (.inl [])) := by
-    intro r
-    simp [pieceToks, parsePart, parseSteps_nil, partOfGroup, normSteps]
-  -- the general `Path(…)` case, for a non-empty list of parts
-  have hgen : ∀ (g0 : List (Step L) ⊕ Step L) (rest : List (List (Step L) ⊕ Step L)),
-      (g0 ∈ gs ∨ g0 = .inl []) → (∀ g ∈ rest, g ∈ gs) →
-      (root ≠ "T" → ∃ l, g0 = .inl l) →
-      (g0 :: rest).flatMap (fun g => normSteps (unGroup g)) = normSteps steps →
-      parseObj [.name "Path", .par (joinSep .comma (pieceList F1 root (g0 :: rest)))] =
-        some (.pobj root (normSteps steps)) := by
-    intro g0 rest h0 hr hfirst hst
-    apply parseObj_path root g0 rest
-    · rcases h0 with h0 | rfl
-      · exact hpiece root g0 h0
-      · exact hempty root
-    · intro g hg; exact hpiece "T" g (hr g hg)
-    · rw [pathInit_groups root g0 rest hfirst (fun hroot g hg s hs =>
-        hAll hroot s (hmem g (hr g hg) s hs)), hst]
-  match gs, hflat, hspec, hmem, hpiece, hsteps, hgen with
-  | [.inl g], hflat, hspec, _, hpiece, hsteps, _ =>
-    left
-    have hparse := hpiece root (.inl g) (by simp)
-    simp only [pieceToks, parsePart, partOfGroup] at hparse
-    have hsp := hspec (.inl g) (by simp)
-    simp only at hsp
-    simp only [List.flatMap_cons, List.flatMap_nil, List.append_nil, unGroup] at hflat
-    subst hflat
-    refine ⟨?_, hsp.1, hsp.2⟩
-    simp only
-    rw [parseObj]
-    cases hps : parseSteps (g.flatMap (fmtStep F1)) with
-    | none => rw [hps] at hparse; simp at hparse
-    | some st =>
-      rw [hps] at hparse
-      simp only [Option.map_some, Option.some.injEq, Part.texpr.injEq, true_and] at hparse
-      rw [hparse]; rfl
-  | [], _, _, _, _, hsteps, hgen =>
-    right
-    by_cases hroot : root = "T"
-    · subst hroot
-      rw [hsteps]
-      simp [withRootPart, pieceList, joinSep, parseObj]
-    · have hw : withRootPart root ([] : List (List (Step L) ⊕ Step L)) = [.inl []] := by
-        simp [withRootPart, hroot]
-      simp only [hw]
-      exact hgen (.inl []) [] (Or.inr rfl) (by simp) (fun _ => ⟨[], rfl⟩)
-        (by rw [hsteps]; simp [unGroup, normSteps])
-  | [.inr x], _, _, _, _, hsteps, hgen =>
-    right
-    by_cases hroot : root = "T"
-    · have hw : withRootPart root [(.inr x : List (Step L) ⊕ Step L)] = [.inr x] := by
-        simp [withRootPart, hroot]
-      simp only [hw]
-      exact hgen (.inr x) [] (Or.inl (by simp)) (by simp) (fun h => absurd hroot h) hsteps.symm
-    · have hw : withRootPart root [(.inr x : List (Step L) ⊕ Step L)] = [.inl [], .inr x] := by
-        simp [withRootPart, hroot]
-      simp only [hw]
-      exact hgen (.inl []) [.inr x] (Or.inr rfl) (by simp) (fun _ => ⟨[], rfl⟩)
-        (by rw [hsteps]; simp [unGroup, normSteps])
-  | a :: b :: r, _, _, _, _, hsteps, hgen =>
-    right
-    cases a with
-    | inl l =>
-      have hw : withRootPart root ((.inl l : List (Step L) ⊕ Step L) :: b :: r) = .inl l :: b :: r := by
-        simp only [withRootPart]; split <;> rfl
-      simp only [hw]
-      exact hgen (.inl l) (b :: r) (Or.inl (by simp)) (fun g hg => by simp [hg])
-        (fun _ => ⟨l, rfl⟩) hsteps.symm
-    | inr x =>
-      by_cases hroot : root = "T"
-      · have hw : withRootPart root ((.inr x : List (Step L) ⊕ Step L) :: b :: r) = .inr x :: b :: r := by
-          simp [withRootPart, hroot]
-        simp only [hw]
-        exact hgen (.inr x) (b :: r) (Or.inl (by simp)) (fun g hg => by simp [hg])
-          (fun h => absurd hroot h) hsteps.symm
-      · have hw : withRootPart root ((.inr x : List (Step L) ⊕ Step L) :: b :: r) =
-            .inl [] :: .inr x :: b :: r := by
-          simp [withRootPart, hroot]
-        simp only [hw]
-        exact hgen (.inl []) (.inr x :: b :: r) (Or.inr rfl) (fun g hg => by simpa using hg)
-          (fun _ => ⟨[], rfl⟩) (by rw [hsteps]; simp [unGroup, normSteps])
 
+/-- `eval` of the text of a Path with any root gives back the root and the (normalised)
+    steps: as a T expression when the path is one run of non-segment steps (reading 6
+    of DESIGN.md), else as a Path.  The hypotheses are what the mutual induction provides
+    for the steps of the path. -/
+theorem parsePath_fmt (root : String) (steps : List (Step L))
+    (hstep : ∀ s ∈ steps, s.isSeg = false → ∀ rest, parseSteps (fmtStep F1 s ++ rest) =
+      (parseSteps rest).map (normStep s :: ·))
+    (hseg : ∀ a, Step.seg a ∈ steps →
+      parseArg (fmtArg F1 a) = some (normArg a) ∧ a.isSegArg = true)
+    (hA : aOk root steps = true) :
+    parseArg (fmtPath F1 root steps) = some (normArg (.path root steps)) := by
+  rw [normArg_path]
+  by_cases hc : pathIsT steps = true
+  · obtain ⟨hne, hns⟩ := (pathIsT_iff steps).mp hc
+    rw [fmtPath_noseg F1 root steps hne hns]
+    have heff : effRoot F1.pathRootAware root = root := rfl
+    rw [heff]
+    unfold fmtT fmtSteps
+    rw [assembleT_noseg F1 root steps hns, parseArg_root,
+      parseSteps_flatMap F1 steps (fun s hs rest => hstep s hs (hns s hs) rest)]
+    simp only [hc, if_true, Option.map_some, normSteps]
+  · have hc' : pathIsT steps = false := by simpa using hc
+    simp only [hc', Bool.false_eq_true, if_false]
+    have hAll : root = "A" → ∀ s ∈ steps, s.okOnA = true := by
+      intro hr
+      simp only [aOk, hr, bne_self_eq_false, Bool.false_or, List.all_eq_true] at hA
+      exact hA
+    unfold fmtPath
+    rw [assemblePath_eq]
+    have heff : effRoot F1.pathRootAware root = root := rfl
+    rw [heff]
+    have hflat := groupSteps_flatten Step.isSeg steps
+    have hspec := groupSteps_spec Step.isSeg steps
+    have hmem := mem_group_mem Step.isSeg steps
+    generalize groupSteps Step.isSeg steps = gs at hflat hspec hmem
+    have hsteps : normSteps steps = gs.flatMap (fun g => normSteps (unGroup g)) := by
+      rw [← hflat]; simp [normSteps, List.map_flatMap]
+    -- what every group is read back as, whichever root it is printed with
+    have hpiece : ∀ (r : String), ∀ g ∈ gs,
+        (parseArg (pieceToks F1 r g)).map partOfArg = some (partOfGroup r g) := by
+      intro r g hg
+      cases g with
+      | inl l =>
+        have hsp := hspec _ hg
+        simp only at hsp
+        have hl : parseSteps (l.flatMap (fmtStep F1)) = some (l.map normStep) :=
+          parseSteps_flatMap F1 l (fun s hs rest =>
+            hstep s (hmem _ hg s (by simpa [unGroup] using hs)) (hsp.2 s hs) rest)
+        simp only [pieceToks, parseArg_root, hl, Option.map_some, partOfArg, partOfGroup, normSteps]
+      | inr s =>
+        have hsp := hspec _ hg
+        simp only at hsp
+        cases s with
+        | seg a =>
+          have ha := hseg a (hmem _ hg (.seg a) (by simp [unGroup]))
+          simp only [pieceToks, partOfGroup]
+          rw [fmtStep, ha.1]
+          simp only [Option.map_some, isSegArg_norm a ha.2]
+        | _ => simp [Step.isSeg] at hsp
+    have hempty : ∀ (r : String),
+        (parseArg (pieceToks F1 r (.inl ([] : List (Step L))))).map partOfArg =
+          some (partOfGroup r (.inl [])) := by
+      intro r
+      simp [pieceToks, parseArg_root, parseSteps_nil, partOfGroup, normSteps, partOfArg]
+    -- the general `Path(…)` case, for a non-empty list of parts
+    have hgen : ∀ (g0 : List (Step L) ⊕ Step L) (rest : List (List (Step L) ⊕ Step L)),
+        (g0 ∈ gs ∨ g0 = .inl []) → (∀ g ∈ rest, g ∈ gs) →
+        (root ≠ "T" → ∃ l, g0 = .inl l) →
+        (g0 :: rest).flatMap (fun g => normSteps (unGroup g)) = normSteps steps →
+        parseArg [.name "Path", .par (joinSep .comma (pieceList F1 root (g0 :: rest)))] =
+          some (.path root (normSteps steps)) := by
+      intro g0 rest h0 hr hfirst hst
+      apply parseArg_pathText root g0 rest
+      · rcases h0 with h0 | rfl
+        · exact hpiece root g0 h0
+        · exact hempty root
+      · intro g hg; exact hpiece "T" g (hr g hg)
+      · rw [pathInit_groups root g0 rest hfirst (fun hroot g hg s hs =>
+          hAll hroot s (hmem g (hr g hg) s hs)), hst]
+    match gs, hflat, hspec, hmem, hpiece, hsteps, hgen with
+    | [.inl g], hflat, hspec, _, _, _, _ =>
+      -- one run of non-segment steps: `pathIsT`, excluded here
+      exfalso
+      have hsp := hspec (.inl g) (by simp)
+      simp only at hsp
+      simp only [List.flatMap_cons, List.flatMap_nil, List.append_nil, unGroup] at hflat
+      subst hflat
+      have : pathIsT g = true := (pathIsT_iff g).mpr hsp
+      rw [this] at hc'; exact absurd hc' (by simp)
+    | [], _, _, _, _, hsteps, hgen =>
+      by_cases hroot : root = "T"
+      · subst hroot
+        rw [hsteps]
+        simp [withRootPart, pieceList, joinSep, parseArg_path]
+      · have hw : withRootPart root ([] : List (List (Step L) ⊕ Step L)) = [.inl []] := by
+          simp [withRootPart, hroot]
+        simp only [hw]
+        exact hgen (.inl []) [] (Or.inr rfl) (by simp) (fun _ => ⟨[], rfl⟩)
+          (by rw [hsteps]; simp [unGroup, normSteps])
+    | [.inr x], _, _, _, _, hsteps, hgen =>
+      by_cases hroot : root = "T"
+      · have hw : withRootPart root [(.inr x : List (Step L) ⊕ Step L)] = [.inr x] := by
+          simp [withRootPart, hroot]
+        simp only [hw]
+        exact hgen (.inr x) [] (Or.inl (by simp)) (by simp) (fun h => absurd hroot h) hsteps.symm
+      · have hw : withRootPart root [(.inr x : List (Step L) ⊕ Step L)] = [.inl [], .inr x] := by
+          simp [withRootPart, hroot]
+        simp only [hw]
+        exact hgen (.inl []) [.inr x] (Or.inr rfl) (by simp) (fun _ => ⟨[], rfl⟩)
+          (by rw [hsteps]; simp [unGroup, normSteps])
+    | a :: b :: r, _, _, _, _, hsteps, hgen =>
+      cases a with
+      | inl l =>
+        have hw : withRootPart root ((.inl l : List (Step L) ⊕ Step L) :: b :: r) = .inl l :: b :: r := by
+          simp only [withRootPart]; split <;> rfl
+        simp only [hw]
+        exact hgen (.inl l) (b :: r) (Or.inl (by simp)) (fun g hg => by simp [hg])
+          (fun _ => ⟨l, rfl⟩) hsteps.symm
+      | inr x =>
+        by_cases hroot : root = "T"
+        · have hw : withRootPart root ((.inr x : List (Step L) ⊕ Step L) :: b :: r) = .inr x :: b :: r := by
+            simp [withRootPart, hroot]
+          simp only [hw]
+          exact hgen (.inr x) (b :: r) (Or.inl (by simp)) (fun g hg => by simp [hg])
+            (fun h => absurd hroot h) hsteps.symm
+        · have hw : withRootPart root ((.inr x : List (Step L) ⊕ Step L) :: b :: r) =
+              .inl [] :: .inr x :: b :: r := by
+            simp [withRootPart, hroot]
+          simp only [hw]
+          exact hgen (.inl []) (.inr x :: b :: r) (Or.inr rfl) (fun g hg => by simpa using hg)
+            (fun _ => ⟨[], rfl⟩) (by rw [hsteps]; simp [unGroup, normSteps])
+
+/-! ### the round trip, by mutual induction over arguments, items and steps -/
+
+theorem validArg_seq (k : Kind) (xs : List (Arg L)) :
+    validArg (.seq k xs) = true ↔ k ≠ .dict ∧ ∀ x ∈ xs, validArg x = true := by
+  rw [validArg, Bool.and_eq_true, all_id_map]; simp
+
+theorem validArg_dict (kvs : List (Arg L × Arg L)) :
+    validArg (.dict kvs) = true ↔ ∀ p ∈ kvs, validArg p.1 = true ∧ validArg p.2 = true := by
+  rw [validArg, all_id_map]; simp
+
+theorem validArg_path (root : String) (steps : List (Step L)) :
+    validArg (.path root steps) = true ↔ (∀ s ∈ steps, validStep s = true) ∧ aOk root steps = true := by
+  rw [validArg, Bool.and_eq_true, all_id_map]
+
+theorem fmtArg_path (F : FmtFacts) (root : String) (steps : List (Step L)) :
+    fmtArg F (.path root steps) = fmtPath F root steps := by
+  rw [fmtArg]; rfl
+
+theorem fmtArg_t (F : FmtFacts) (root : String) (steps : List (Step L)) :
+    fmtArg F (.t root steps) = fmtT F root steps := by
+  rw [fmtArg]; rfl
+
+mutual
+  theorem parseArg_fmt : ∀ (a : Arg L), validArg a = true →
+      parseArg (fmtArg F1 a) = some (normArg a)
+    | .lit v, _ => by rw [fmtArg, parseArg_lit, normArg]
+    | .t root steps, hv => by
+      rw [validArg_t] at hv
+      rw [fmtArg, assembleT_noseg F1 root steps (fun s hs => (hv s hs).1), parseArg_root,
+        parseSteps_flatMap F1 steps (fun s hs rest =>
+          parseStep_fmt s (hv s hs).2 (hv s hs).1 rest), normArg]
+      rfl
+    | .seq k xs, hv => by
+      rw [validArg_seq] at hv
+      have h : ∀ x ∈ xs, parseArg (fmtArg F1 x) = some (normArg x) :=
+        fun x hx => parseArg_fmt x (hv.2 x hx)
+      rw [fmtArg, normArg, parseArg_seq k hv.1 xs h]
+    | .dict kvs, hv => by
+      rw [validArg_dict] at hv
+      have h : ∀ p ∈ kvs, parseArg (fmtArg F1 p.1) = some (normArg p.1) ∧
+          parseArg (fmtArg F1 p.2) = some (normArg p.2) :=
+        fun p hp => ⟨parseArg_fmt p.1 (hv p hp).1, parseArg_fmt p.2 (hv p hp).2⟩
+      rw [fmtArg, normArg, parseArg_dict kvs h]
+    | .sliceObj a b c, hv => by
+      rw [validArg] at hv
+      simp only [Bool.and_eq_true] at hv
+      rw [fmtArg, normArg, parseArg_sliceObj a b c (parseArg_fmt a hv.1.1) (parseArg_fmt b hv.1.2)
+        (parseArg_fmt c hv.2)]
+    | .path root steps, hv => by
+      rw [validArg_path] at hv
+      rw [fmtArg_path]
+      exact parsePath_fmt root steps
+        (fun s hs hns rest => parseStep_fmt s (hv.1 s hs) hns rest)
+        (fun a ha => parseSegStep_fmt (.seg a) (hv.1 _ ha) a rfl) hv.2
+    | .bad _, hv => by rw [validArg] at hv; exact absurd hv (by simp)
+    | .fill, hv => by rw [validArg] at hv; exact absurd hv (by simp)
+    | .deep _, hv => by rw [validArg] at hv; exact absurd hv (by simp)
+    | .dictMore _, hv => by rw [validArg] at hv; exact absurd hv (by simp)
+  termination_by a => sizeOf a
+  decreasing_by
+    all_goals first
+      | c18_dec
+      | (simp_wf; have := List.sizeOf_lt_of_mem ‹_ ∈ _›; simp at this; omega)
+
+  theorem parseItem_fmt : ∀ (i : Item L), validItem i = true →
+      parseItem (fmtItem F1 i) = some (normItem i)
+    | .one a, hv => by
+      have hva := ((validItem_one a).mp hv).1
+      rw [fmtItem, parseItem_def, splitOn_noSep _ _ (fmtArg_noColon F1 a)]
+      simp only [parseArg_fmt a hva, Option.map_some, normItem]
+    | .slice a b none, hv => by
+      unfold validItem at hv
+      simp only [Bool.and_eq_true] at hv
+      have ha := parseOpt_fmt a (fun x hx => parseArg_fmt x (by subst hx; exact hv.1.1))
+      have hb := parseOpt_fmt b (fun x hx => parseArg_fmt x (by subst hx; exact hv.1.2))
+      rw [fmtItem_slice, parseItem_def, normItem_slice]
+      simp only [List.append_nil, List.append_assoc, List.singleton_append]
+      rw [splitOn_append_sep _ _ _ _ (fmtOpt_noColon F1 a) rfl,
+        splitOn_noSep _ _ (fmtOpt_noColon F1 b)]
+      simp only [ha, hb, slice3, Option.map_none]
+    | .slice a b (some x), hv => by
+      unfold validItem at hv
+      simp only [Bool.and_eq_true] at hv
+      have ha := parseOpt_fmt a (fun y hy => parseArg_fmt y (by subst hy; exact hv.1.1))
+      have hb := parseOpt_fmt b (fun y hy => parseArg_fmt y (by subst hy; exact hv.1.2))
+      have hne : (fmtArg F1 x).isEmpty = false := by
+        simp only [List.isEmpty_eq_false_iff]; exact fmtArg_ne_nil F1 x
+      have hc := parseArg_fmt x hv.2
+      rw [fmtItem_slice, parseItem_def, normItem_slice]
+      simp only [List.append_assoc, List.cons_append, List.nil_append]
+      rw [splitOn_append_sep _ _ _ _ (fmtOpt_noColon F1 a) rfl,
+        splitOn_append_sep _ _ _ _ (fmtOpt_noColon F1 b) rfl,
+        splitOn_noSep _ _ (fmtArg_noColon F1 x)]
+      simp only [ha, hb, hc, hne, slice3, Bool.false_eq_true, if_false, Option.map_some]
+  termination_by i => sizeOf i
+  decreasing_by
+    all_goals simp_wf
+    all_goals (try subst_vars)
+    all_goals (first | omega | (simp <;> omega))
+
+  theorem parseStep_fmt : ∀ (s : Step L), validStep s = true → s.isSeg = false →
+      ∀ (rest : List (Tok L)),
+      parseSteps (fmtStep F1 s ++ rest) = (parseSteps rest).map (normStep s :: ·)
+    | .seg v, _, hs, _ => by simp [Step.isSeg] at hs
+    | .star, _, _, rest => by rw [fmtStep, normStep]; exact parseSteps_star rest
+    | .starstar, _, _, rest => by rw [fmtStep, normStep]; exact parseSteps_starstar rest
+    | .attr n, _, _, rest => by
+      rw [fmtStep, normStep]
+      by_cases hd : isDunder n = true
+      · simp only [F1, hd, Bool.and_self, if_true, List.cons_append, List.nil_append]
+        rw [parseSteps_dunder, ← (isDunder_iff n).mp hd]
+      · have hd' : isDunder n = false := by simpa using hd
+        simp only [hd', Bool.and_false, Bool.false_eq_true, if_false, List.cons_append,
+          List.nil_append]
+        exact parseSteps_dot n rest hd'
+    | .item i, hv, _, rest => by
+      unfold validStep at hv
+      simp only [Bool.and_eq_true] at hv
+      obtain ⟨hv, hatom⟩ := hv
+      rw [fmtStep, normStep]
+      simp only [List.cons_append, List.nil_append]
+      rw [parseSteps_br, parseIndex_def]
+      have hu := fmtItem_not_unit F1 i hatom
+      simp only [hu, Bool.false_eq_true, if_false]
+      rw [splitOn_noSep _ _ (fmtItem_noComma F1 i)]
+      simp only [parseItem_fmt i hv, Option.map_some, consOpt_some]
+    | .items is, hv, _, rest => by
+      unfold validStep at hv
+      rw [all_id_map] at hv
+      have hi : ∀ i ∈ is, parseItem (fmtItem F1 i) = some (normItem i) :=
+        fun i hi => parseItem_fmt i (hv i hi)
+      rw [fmtStep, normStep]
+      by_cases hemp : is = []
+      · subst hemp
+        simp only [F1, List.isEmpty_nil, Bool.and_self, if_true, List.cons_append, List.nil_append,
+          List.map_nil]
+        rw [parseSteps_br, parseIndex_def]
+        simp only [isUnitTok, if_true, consOpt_some]
+      · have hne : (is.isEmpty && F1.tupleEmptyParen) = false := by
+          cases is with
+          | nil => exact absurd rfl hemp
+          | cons _ _ => rfl
+        simp only [hne, Bool.false_eq_true, if_false, List.cons_append, List.nil_append]
+        rw [parseSteps_br]
+        have := parseIndex_items is hemp hi
+        simp only [itemsToks] at this
+        have hsc : F1.singletonComma = true := rfl
+        simp only [hsc, Bool.and_true]
+        rw [this, consOpt_some]
+    | .call args kwargs, hv, _, rest => by
+      unfold validStep at hv
+      simp only [Bool.and_eq_true, all_id_map, decide_eq_true_eq] at hv
+      have ha : ∀ a ∈ args, parseArg (fmtArg F1 a) = some (normArg a) :=
+        fun a haa => parseArg_fmt a (hv.1.1 a haa)
+      have hk : ∀ p ∈ kwargs, parseArg (fmtArg F1 p.2) = some (normArg p.2) :=
+        fun p hp => parseArg_fmt p.2 (hv.1.2 p hp)
+      rw [fmtStep, normStep]
+      simp only [List.cons_append, List.nil_append]
+      rw [parseSteps_par]
+      have := parseCall_fmt args kwargs ha hk hv.2
+      simp only [callToks] at this
+      rw [this, consOpt_some]
+  termination_by s => sizeOf s
+  decreasing_by all_goals c18_dec
+
+  /-- a plain segment of a Path is printed (by the builtin `repr`) as an expression for it -/
+  theorem parseSegStep_fmt : ∀ (s : Step L), validStep s = true → ∀ a, s = .seg a →
+      parseArg (fmtArg F1 a) = some (normArg a) ∧ a.isSegArg = true
+    | .seg b, hv, a, h => by
+      rw [validStep] at hv
+      simp only [Bool.and_eq_true] at hv
+      cases h
+      exact ⟨parseArg_fmt b hv.1, hv.2⟩
+    | .attr _, _, _, h => by cases h
+    | .item _, _, _, h => by cases h
+    | .items _, _, _, h => by cases h
+    | .call _ _, _, _, h => by cases h
+    | .star, _, _, h => by cases h
+    | .starstar, _, _, h => by cases h
+  termination_by s => sizeOf s
+  decreasing_by all_goals c18_dec
+end
+
+/-! ### whole objects -/
+
+theorem validT_iff (steps : List (Step L)) :
+    validT steps = true ↔ ∀ s ∈ steps, s.isSeg = false ∧ validStep s = true := by
+  simp [validT, List.all_eq_true]
+
+theorem parseSteps_fmt (steps : List (Step L)) (hv : validT steps = true) :
+    parseSteps (steps.flatMap (fmtStep F1)) = some (normSteps steps) := by
+  rw [validT_iff] at hv
+  exact parseSteps_flatMap F1 steps (fun s hs rest => parseStep_fmt s (hv s hs).2 (hv s hs).1 rest)
+
+/-- `eval(repr(t))` of a T expression gives back its root and (normalised) steps -/
+theorem parseObj_fmtT (root : String) (steps : List (Step L)) (hv : validT steps = true) :
+    parseObj (fmtT F1 root steps) = some (.tobj root (normSteps steps)) := by
+  have hns : ∀ s ∈ steps, s.isSeg = false := fun s hs => ((validT_iff steps).mp hv s hs).1
+  unfold fmtT fmtSteps
+  rw [assembleT_noseg F1 root steps hns]
+  unfold parseObj
+  rw [parseArg_root, parseSteps_fmt steps hv]
+  rfl
 /-! ### the reconstructed object has the same repr -/
 
 theorem normStep_isSeg (s : Step L) : (normStep s).isSeg = s.isSeg := by
@@ -1687,31 +2132,76 @@ theorem fmtOpt_norm (F : FmtFacts) (a : Option (Arg L))
   | none => rfl
   | some x => simp only [Option.map_some, fmtOpt, h x rfl]
 
+theorem map_fmt_norm (F : FmtFacts) (steps : List (Step L))
+    (hs : ∀ s ∈ steps, fmtStep F (normStep s) = fmtStep F s) :
+    (steps.map (fun s => normStep s)).map (fun s => (s, fmtStep F s)) =
+      (steps.map (fun s => (s, fmtStep F s))).map
+        (fun (x : Step L × List (Tok L)) => (normStep x.1, x.2)) := by
+  rw [List.map_map, List.map_map]
+  apply List.map_congr_left
+  intro s hs'
+  simp only [Function.comp, hs s hs']
+
 mutual
-  theorem fmtArg_norm (F : FmtFacts) : ∀ (a : Arg L), fmtArg F (normArg a) = fmtArg F a
+  theorem fmtArg_norm (F : FmtFacts) (hF : F.pathRootAware = true) :
+      ∀ (a : Arg L), fmtArg F (normArg a) = fmtArg F a
     | .lit v => by rw [normArg]
     | .t root steps => by
-      have hs : ∀ s ∈ steps, fmtStep F (normStep s) = fmtStep F s := fun s _ => fmtStep_norm F s
-      rw [normArg, fmtArg, fmtArg, List.map_map]
-      have : steps.map ((fun s => (s, fmtStep F s)) ∘ fun s => normStep s) =
-          (steps.map (fun s => (s, fmtStep F s))).map
-            (fun (x : Step L × List (Tok L)) => (normStep x.1, x.2)) := by
-        rw [List.map_map]
-        apply List.map_congr_left
-        intro s hs'
-        simp only [Function.comp, hs s hs']
-      rw [this]
+      have hs : ∀ s ∈ steps, fmtStep F (normStep s) = fmtStep F s := fun s _ => fmtStep_norm F hF s
+      rw [normArg, fmtArg, fmtArg, map_fmt_norm F steps hs]
       exact assembleT_congr _ root (fun (x : Step L × List (Tok L)) => (normStep x.1, x.2))
         (fun x => normStep_isSeg x.1) (fun _ => rfl) _
+    | .seq k xs => by
+      have hx : ∀ x ∈ xs, fmtArg F (normArg x) = fmtArg F x := fun x _ => fmtArg_norm F hF x
+      rw [normArg, fmtArg, fmtArg, List.map_map, List.length_map]
+      have : xs.map ((fun x => fmtArg F x) ∘ fun x => normArg x) = xs.map (fun x => fmtArg F x) :=
+        List.map_congr_left (fun x hxx => hx x hxx)
+      rw [this]
+    | .dict kvs => by
+      have hp : ∀ p ∈ kvs, fmtArg F (normArg p.1) = fmtArg F p.1 ∧ fmtArg F (normArg p.2) = fmtArg F p.2 :=
+        fun p _ => ⟨fmtArg_norm F hF p.1, fmtArg_norm F hF p.2⟩
+      rw [normArg, fmtArg, fmtArg, List.map_map]
+      have : kvs.map ((fun p => fmtArg F p.1 ++ Tok.colon :: fmtArg F p.2) ∘
+          fun p => (normArg p.1, normArg p.2)) =
+          kvs.map (fun p => fmtArg F p.1 ++ Tok.colon :: fmtArg F p.2) :=
+        List.map_congr_left (fun p hpp => by simp only [Function.comp, (hp p hpp).1, (hp p hpp).2])
+      rw [this]
+    | .sliceObj a b c => by
+      rw [normArg, fmtArg, fmtArg, fmtArg_norm F hF a, fmtArg_norm F hF b, fmtArg_norm F hF c]
+    | .path root steps => by
+      have hs : ∀ s ∈ steps, fmtStep F (normStep s) = fmtStep F s := fun s _ => fmtStep_norm F hF s
+      rw [normArg_path]
+      by_cases hc : pathIsT steps = true
+      · obtain ⟨hne, hns⟩ := (pathIsT_iff steps).mp hc
+        simp only [hc, if_true]
+        rw [fmtArg_path, fmtPath_noseg F root steps hne hns]
+        have heff : effRoot F.pathRootAware root = root := by simp [effRoot, hF]
+        rw [heff, fmtArg]
+        unfold fmtT fmtSteps normSteps
+        rw [map_fmt_norm F steps hs]
+        exact assembleT_congr _ root (fun (x : Step L × List (Tok L)) => (normStep x.1, x.2))
+          (fun x => normStep_isSeg x.1) (fun _ => rfl) _
+      · have hc' : pathIsT steps = false := by simpa using hc
+        simp only [hc', Bool.false_eq_true, if_false]
+        rw [fmtArg, fmtArg]
+        unfold normSteps
+        rw [map_fmt_norm F steps hs]
+        exact assemblePath_congr _ root (fun (x : Step L × List (Tok L)) => (normStep x.1, x.2))
+          (fun x => normStep_isSeg x.1) (fun _ => rfl) _
+    | .bad _ => by rw [normArg]
+    | .fill => by rw [normArg]
+    | .deep _ => by rw [normArg]
+    | .dictMore _ => by rw [normArg]
   termination_by a => sizeOf a
   decreasing_by all_goals c18_dec
 
-  theorem fmtItem_norm (F : FmtFacts) : ∀ (i : Item L), fmtItem F (normItem i) = fmtItem F i
-    | .one a => by rw [normItem, fmtItem, fmtItem, fmtArg_norm F a]
+  theorem fmtItem_norm (F : FmtFacts) (hF : F.pathRootAware = true) :
+      ∀ (i : Item L), fmtItem F (normItem i) = fmtItem F i
+    | .one a => by rw [normItem, fmtItem, fmtItem, fmtArg_norm F hF a]
     | .slice a b c => by
-      have ha := fmtOpt_norm F a (fun x _ => fmtArg_norm F x)
-      have hb := fmtOpt_norm F b (fun x _ => fmtArg_norm F x)
-      have hc : ∀ x, c = some x → fmtArg F (normArg x) = fmtArg F x := fun x _ => fmtArg_norm F x
+      have ha := fmtOpt_norm F a (fun x _ => fmtArg_norm F hF x)
+      have hb := fmtOpt_norm F b (fun x _ => fmtArg_norm F hF x)
+      have hc : ∀ x, c = some x → fmtArg F (normArg x) = fmtArg F x := fun x _ => fmtArg_norm F hF x
       rw [normItem_slice, fmtItem_slice, fmtItem_slice, ha, hb]
       cases c with
       | none => rfl
@@ -1722,22 +2212,23 @@ mutual
     all_goals (try subst_vars)
     all_goals (first | omega | (simp <;> omega))
 
-  theorem fmtStep_norm (F : FmtFacts) : ∀ (s : Step L), fmtStep F (normStep s) = fmtStep F s
+  theorem fmtStep_norm (F : FmtFacts) (hF : F.pathRootAware = true) :
+      ∀ (s : Step L), fmtStep F (normStep s) = fmtStep F s
     | .attr n => by rw [normStep]
-    | .seg v => by rw [normStep]
+    | .seg a => by rw [normStep, fmtStep, fmtStep, fmtArg_norm F hF a]
     | .star => by rw [normStep]
     | .starstar => by rw [normStep]
-    | .item i => by rw [normStep, fmtStep, fmtStep, fmtItem_norm F i]
+    | .item i => by rw [normStep, fmtStep, fmtStep, fmtItem_norm F hF i]
     | .items is => by
-      have hi : ∀ i ∈ is, fmtItem F (normItem i) = fmtItem F i := fun i _ => fmtItem_norm F i
+      have hi : ∀ i ∈ is, fmtItem F (normItem i) = fmtItem F i := fun i _ => fmtItem_norm F hF i
       rw [normStep, fmtStep, fmtStep, List.map_map]
       have : is.map ((fun i => fmtItem F i) ∘ fun i => normItem i) = is.map (fun i => fmtItem F i) :=
         List.map_congr_left (fun i hii => hi i hii)
       rw [this]
       simp only [List.isEmpty_map, List.length_map]
     | .call args kwargs => by
-      have ha : ∀ a ∈ args, fmtArg F (normArg a) = fmtArg F a := fun a _ => fmtArg_norm F a
-      have hk : ∀ p ∈ kwargs, fmtArg F (normArg p.2) = fmtArg F p.2 := fun p _ => fmtArg_norm F p.2
+      have ha : ∀ a ∈ args, fmtArg F (normArg a) = fmtArg F a := fun a _ => fmtArg_norm F hF a
+      have hk : ∀ p ∈ kwargs, fmtArg F (normArg p.2) = fmtArg F p.2 := fun p _ => fmtArg_norm F hF p.2
       rw [normStep, fmtStep, fmtStep, List.map_map]
       have h1 : args.map ((fun a => fmtArg F a) ∘ fun a => normArg a) = args.map (fun a => fmtArg F a) :=
         List.map_congr_left (fun a haa => ha a haa)
@@ -1753,81 +2244,609 @@ mutual
   decreasing_by all_goals c18_dec
 end
 
-theorem fmtSteps_norm (F : FmtFacts) (steps : List (Step L)) :
+theorem fmtSteps_norm (F : FmtFacts) (hF : F.pathRootAware = true) (steps : List (Step L)) :
     fmtSteps F (normSteps steps) =
       (fmtSteps F steps).map (fun (x : Step L × List (Tok L)) => (normStep x.1, x.2)) := by
   simp only [fmtSteps, normSteps, List.map_map]
   apply List.map_congr_left
   intro s _
-  simp only [Function.comp, fmtStep_norm F s]
+  simp only [Function.comp, fmtStep_norm F hF s]
 
-theorem fmtT_norm (F : FmtFacts) (root : String) (steps : List (Step L)) :
+theorem fmtT_norm (F : FmtFacts) (hF : F.pathRootAware = true) (root : String) (steps : List (Step L)) :
     fmtT F root (normSteps steps) = fmtT F root steps := by
   unfold fmtT
-  rw [fmtSteps_norm]
+  rw [fmtSteps_norm F hF]
   exact assembleT_congr _ root (fun (x : Step L × List (Tok L)) => (normStep x.1, x.2))
     (fun x => normStep_isSeg x.1) (fun _ => rfl) _
 
-theorem fmtPath_norm (F : FmtFacts) (root : String) (steps : List (Step L)) :
+theorem fmtPath_norm (F : FmtFacts) (hF : F.pathRootAware = true) (root : String) (steps : List (Step L)) :
     fmtPath F root (normSteps steps) = fmtPath F root steps := by
   unfold fmtPath
-  rw [fmtSteps_norm]
+  rw [fmtSteps_norm F hF]
   exact assemblePath_congr _ root (fun (x : Step L × List (Tok L)) => (normStep x.1, x.2))
     (fun x => normStep_isSeg x.1) (fun _ => rfl) _
 
-/-- a Path without plain segments prints like the T expression with the same steps -/
-theorem fmtPath_noseg (F : FmtFacts) (root : String) (steps : List (Step L)) (hne : steps ≠ [])
-    (hns : ∀ s ∈ steps, s.isSeg = false) :
-    fmtPath F root steps = fmtT F (effRoot F.pathRootAware root) steps := by
-  have hgen : ∀ (r : List (Step L)) (s : Step L), (∀ x ∈ s :: r, x.isSeg = false) →
-      groupSteps Step.isSeg (s :: r) = [.inl (s :: r)] := by
-    intro r
-    induction r with
-    | nil => intro s h; simp [groupSteps, h s (by simp)]
-    | cons s' r' ih =>
-      intro s h
-      have := ih s' (fun x hx => h x (by simp [hx]))
-      simp only [groupSteps, h s (by simp), Bool.false_eq_true, if_false] at this ⊢
-      rw [this]
-  have hg : groupSteps Step.isSeg steps = [.inl steps] := by
-    cases steps with
-    | nil => exact absurd rfl hne
-    | cons s r => exact hgen r s hns
-  unfold fmtPath fmtT
-  rw [assemblePath_eq, hg]
-  simp only
-  unfold fmtSteps
-  rw [assembleT_noseg F _ steps hns]
-
-/-- … and the object read back prints as the original did -/
+/-- `eval(repr(p))` of a Path: the object read back — a T expression when the path has no plain
+    segment, else a Path — has the root and the (normalised) steps of `p` and prints as `p` did -/
 theorem parseObj_fmtPath_repr (root : String) (steps : List (Step L)) (hv : validP steps = true)
     (hA : aOk root steps = true) :
     ∃ y, parseObj (fmtPath F1 root steps) = some y ∧ y.root = root ∧ y.steps = normSteps steps ∧
       reprObj F1 y = fmtPath F1 root steps := by
-  rcases parseObj_fmtPath root steps hv hA with ⟨hy, hne, hns⟩ | hy
-  · refine ⟨_, hy, rfl, rfl, ?_⟩
-    simp only [reprObj, fmtT_norm]
+  have h := parseArg_fmt (.path root steps) ((validArg_path root steps).mpr ⟨(validP_iff steps).mp hv, hA⟩)
+  rw [fmtArg_path, normArg_path] at h
+  unfold parseObj
+  rw [h]
+  by_cases hc : pathIsT steps = true
+  · obtain ⟨hne, hns⟩ := (pathIsT_iff steps).mp hc
+    simp only [hc, if_true]
+    refine ⟨_, rfl, rfl, rfl, ?_⟩
+    simp only [reprObj, fmtT_norm F1 rfl]
     exact (fmtPath_noseg F1 root steps hne hns).symm
-  · refine ⟨_, hy, rfl, rfl, ?_⟩
-    simp only [reprObj, fmtPath_norm]
+  · have hc' : pathIsT steps = false := by simpa using hc
+    simp only [hc', Bool.false_eq_true, if_false]
+    refine ⟨_, rfl, rfl, rfl, ?_⟩
+    simp only [reprObj, fmtPath_norm F1 rfl]
+
+/-! ### inside its limits `reprlib` loses nothing -/
+
+theorem map_eq_self {α} (f : α → α) (xs : List α) (h : ∀ x ∈ xs, f x = x) : xs.map f = xs := by
+  induction xs with
+  | nil => rfl
+  | cons x r ih => simp [h x (by simp), ih (fun y hy => h y (by simp [hy]))]
+
+theorem cutInst_of_fits (S : ScalarOps L) (F : FmtFacts) (lim : Limits) (plain : Bool) (a : Arg L)
+    (h : (plain || decide (argWidth S F a ≤ lim.maxother)) = true) :
+    cutInst S F lim plain a = a := by
+  unfold cutInst
+  unfold argWidth at h
+  rw [if_pos h]
+
+theorem truncLit_of_fits (S : ScalarOps L) (lim : Limits) (plain : Bool) (v : L)
+    (h : fitsLit S lim plain v = true) : truncLit S lim plain v = .lit v := by
+  unfold fitsLit at h
+  unfold truncLit
+  cases plain <;> simp_all
+
+def truncOpt (S : ScalarOps L) (F : FmtFacts) (lim : Limits) : Option (Arg L) → Option (Arg L)
+  | none => none
+  | some x => some (truncArg S F lim false lim.maxlevel x)
+
+def fitsOpt (S : ScalarOps L) (F : FmtFacts) (lim : Limits) : Option (Arg L) → Bool
+  | none => true
+  | some x => fitsArg S F lim false lim.maxlevel x
+
+theorem truncItem_slice (S : ScalarOps L) (F : FmtFacts) (lim : Limits) (a b c : Option (Arg L)) :
+    truncItem S F lim (.slice a b c) = .slice (truncOpt S F lim a) (truncOpt S F lim b) (truncOpt S F lim c) := by
+  cases a <;> cases b <;> cases c <;> simp [truncItem, truncOpt]
+
+theorem fitsItem_slice (S : ScalarOps L) (F : FmtFacts) (lim : Limits) (a b c : Option (Arg L)) :
+    fitsItem S F lim (.slice a b c) = (fitsOpt S F lim a && fitsOpt S F lim b && fitsOpt S F lim c) := by
+  cases a <;> cases b <;> cases c <;> simp [fitsItem, fitsOpt]
+
+theorem truncOpt_of_fits (S : ScalarOps L) (F : FmtFacts) (lim : Limits) (a : Option (Arg L))
+    (ih : ∀ x, a = some x → fitsArg S F lim false lim.maxlevel x = true →
+      truncArg S F lim false lim.maxlevel x = x)
+    (h : fitsOpt S F lim a = true) : truncOpt S F lim a = a := by
+  cases a with
+  | none => rfl
+  | some x => simp only [truncOpt, ih x rfl h]
+
+mutual
+  theorem truncArg_of_fits (S : ScalarOps L) (F : FmtFacts) (lim : Limits) :
+      ∀ (plain : Bool) (level : Nat) (a : Arg L), fitsArg S F lim plain level a = true →
+        truncArg S F lim plain level a = a
+    | plain, level, .lit v, h => by
+      rw [fitsArg] at h
+      rw [truncArg, truncLit_of_fits S lim plain v h]
+    | plain, level, .t root steps, h => by
+      rw [fitsArg, Bool.and_eq_true, all_id_map] at h
+      have hs : steps.map (fun s => truncStep S F lim s) = steps :=
+        map_eq_self _ steps (fun s hs => truncStep_of_fits S F lim s (h.1 s hs))
+      rw [truncArg, hs]
+      exact cutInst_of_fits S F lim plain _ h.2
+    | plain, level, .path root steps, h => by
+      rw [fitsArg, Bool.and_eq_true, all_id_map] at h
+      have hs : steps.map (fun s => truncStep S F lim s) = steps :=
+        map_eq_self _ steps (fun s hs => truncStep_of_fits S F lim s (h.1 s hs))
+      rw [truncArg, hs]
+      exact cutInst_of_fits S F lim plain _ h.2
+    | true, level, .seq k xs, h => by
+      rw [fitsArg] at h
+      simp only [if_true, Bool.and_eq_true, all_id_map] at h
+      rw [truncArg]
+      simp only [if_true]
+      rw [map_eq_self _ xs (fun x hx => truncArg_of_fits S F lim true level x (h.2 x hx))]
+    | false, level, .seq k xs, h => by
+      rw [fitsArg] at h
+      simp only [Bool.false_eq_true, if_false, Bool.and_eq_true, all_id_map, decide_eq_true_eq,
+        Bool.not_eq_true'] at h
+      obtain ⟨⟨h1, h2⟩, h3⟩ := h
+      rw [truncArg]
+      simp only [Bool.false_eq_true, if_false, h1]
+      rw [map_eq_self _ xs (fun x hx => truncArg_of_fits S F lim false (level - 1) x (h3 x hx))]
+      rw [List.take_of_length_le h2, if_neg (by omega)]
+    | true, level, .dict kvs, h => by
+      rw [fitsArg] at h
+      simp only [if_true, all_id_map, Bool.and_eq_true] at h
+      rw [truncArg]
+      simp only [if_true]
+      rw [map_eq_self _ kvs (fun p hp => by
+        rw [truncArg_of_fits S F lim true level p.1 (h p hp).1,
+          truncArg_of_fits S F lim true level p.2 (h p hp).2])]
+    | false, level, .dict kvs, h => by
+      rw [fitsArg] at h
+      simp only [Bool.false_eq_true, if_false, Bool.or_eq_true, Bool.and_eq_true, all_id_map,
+        decide_eq_true_eq, bne_iff_ne, ne_eq] at h
+      rw [truncArg]
+      simp only [Bool.false_eq_true, if_false]
+      by_cases hemp : kvs.isEmpty = true
+      · simp only [hemp, if_true]
+        cases kvs with
+        | nil => rfl
+        | cons _ _ => simp at hemp
+      · simp only [hemp, Bool.false_eq_true, if_false]
+        rcases h with h | ⟨⟨h1, h2⟩, h3⟩
+        · exact absurd h hemp
+        · have hl : (level == 0) = false := by simpa using h1
+          simp only [hl, Bool.false_eq_true, if_false]
+          rw [map_eq_self _ kvs (fun p hp => by
+            rw [truncArg_of_fits S F lim false (level - 1) p.1 (h3 p hp).1,
+              truncArg_of_fits S F lim false (level - 1) p.2 (h3 p hp).2])]
+          rw [List.take_of_length_le h2, if_neg (by omega)]
+    | plain, level, .sliceObj a b c, h => by
+      rw [fitsArg] at h
+      simp only [Bool.and_eq_true] at h
+      rw [truncArg, truncArg_of_fits S F lim true level a h.1.1.1,
+        truncArg_of_fits S F lim true level b h.1.1.2, truncArg_of_fits S F lim true level c h.1.2]
+      exact cutInst_of_fits S F lim plain _ h.2
+    | _, _, .bad _, _ => by rw [truncArg]
+    | _, _, .fill, _ => by rw [truncArg]
+    | _, _, .deep _, _ => by rw [truncArg]
+    | _, _, .dictMore _, _ => by rw [truncArg]
+  termination_by _ _ a => sizeOf a
+  decreasing_by all_goals c18_dec
+
+  theorem truncItem_of_fits (S : ScalarOps L) (F : FmtFacts) (lim : Limits) :
+      ∀ (i : Item L), fitsItem S F lim i = true → truncItem S F lim i = i
+    | .one a, h => by
+      rw [fitsItem] at h
+      rw [truncItem, truncArg_of_fits S F lim false lim.maxlevel a h]
+    | .slice a b c, h => by
+      rw [fitsItem_slice] at h
+      simp only [Bool.and_eq_true] at h
+      rw [truncItem_slice]
+      rw [truncOpt_of_fits S F lim a (fun x _ hx => truncArg_of_fits S F lim false lim.maxlevel x hx) h.1.1,
+        truncOpt_of_fits S F lim b (fun x _ hx => truncArg_of_fits S F lim false lim.maxlevel x hx) h.1.2,
+        truncOpt_of_fits S F lim c (fun x _ hx => truncArg_of_fits S F lim false lim.maxlevel x hx) h.2]
+  termination_by i => sizeOf i
+  decreasing_by
+    all_goals simp_wf
+    all_goals (try subst_vars)
+    all_goals (first | omega | (simp <;> omega))
+
+  theorem truncStep_of_fits (S : ScalarOps L) (F : FmtFacts) (lim : Limits) :
+      ∀ (s : Step L), fitsStep S F lim s = true → truncStep S F lim s = s
+    | .attr _, _ => by rw [truncStep]
+    | .star, _ => by rw [truncStep]
+    | .starstar, _ => by rw [truncStep]
+    | .seg a, h => by
+      rw [fitsStep] at h
+      rw [truncStep, truncArg_of_fits S F lim true 0 a h]
+    | .item i, h => by
+      rw [fitsStep] at h
+      rw [truncStep, truncItem_of_fits S F lim i h]
+    | .items is, h => by
+      rw [fitsStep, all_id_map] at h
+      rw [truncStep, map_eq_self _ is (fun i hi => truncItem_of_fits S F lim i (h i hi))]
+    | .call args kwargs, h => by
+      rw [fitsStep, Bool.and_eq_true, all_id_map, all_id_map] at h
+      rw [truncStep, map_eq_self _ args (fun a ha => truncArg_of_fits S F lim false lim.maxlevel a (h.1 a ha)),
+        map_eq_self _ kwargs (fun p hp => by
+          rw [truncArg_of_fits S F lim false lim.maxlevel p.2 (h.2 p hp)])]
+  termination_by s => sizeOf s
+  decreasing_by all_goals c18_dec
+end
+
+theorem truncSteps_of_fits (S : ScalarOps L) (F : FmtFacts) (lim : Limits) (steps : List (Step L))
+    (h : fitsSteps S F lim steps = true) : steps.map (truncStep S F lim) = steps := by
+  unfold fitsSteps at h
+  rw [List.all_eq_true] at h
+  exact map_eq_self _ steps (fun s hs => truncStep_of_fits S F lim s (h s hs))
+
+/-- inside the limits, the repr glom computes is the unlimited formatter's -/
+theorem reprLim_of_fits (S : ScalarOps L) (F : FmtFacts) (lim : Limits) (x : Obj L)
+    (h : fitsObj S F lim x = true) : reprLim S F lim x = reprObj F x := by
+  cases x with
+  | tobj r s => simp only [reprLim, reprObj, truncSteps_of_fits S F lim s h]
+  | pobj r s => simp only [reprLim, reprObj, truncSteps_of_fits S F lim s h]
+
+/-! ### the reconstructed object is inside the limits too -/
+
+theorem argWidth_norm (S : ScalarOps L) (F : FmtFacts) (hF : F.pathRootAware = true)
+    (a : Arg L) : argWidth S F (normArg a) = argWidth S F a := by
+  unfold argWidth; rw [fmtArg_norm F hF a]
+
+theorem fitsOpt_norm (S : ScalarOps L) (F : FmtFacts) (lim : Limits) (a : Option (Arg L))
+    (ih : ∀ x, a = some x → fitsArg S F lim false lim.maxlevel x = true →
+      fitsArg S F lim false lim.maxlevel (normArg x) = true)
+    (h : fitsOpt S F lim a = true) : fitsOpt S F lim (a.map normArg) = true := by
+  cases a with
+  | none => rfl
+  | some x => exact ih x rfl h
+
+mutual
+  theorem fitsArg_norm (S : ScalarOps L) (F : FmtFacts) (hF : F.pathRootAware = true) (lim : Limits) :
+      ∀ (plain : Bool) (level : Nat) (a : Arg L), fitsArg S F lim plain level a = true →
+        fitsArg S F lim plain level (normArg a) = true
+    | plain, level, .lit v, h => by rw [normArg]; exact h
+    | plain, level, .t root steps, h => by
+      have hw := argWidth_norm S F hF (.t root steps)
+      rw [normArg] at hw ⊢
+      rw [fitsArg, Bool.and_eq_true, all_id_map] at h ⊢
+      refine ⟨?_, by rw [hw]; exact h.2⟩
+      intro s hs
+      simp only [List.mem_map] at hs
+      obtain ⟨s0, hs0, rfl⟩ := hs
+      exact fitsStep_norm S F hF lim s0 (h.1 s0 hs0)
+    | plain, level, .path root steps, h => by
+      have hw := argWidth_norm S F hF (.path root steps)
+      rw [normArg_path] at hw ⊢
+      rw [fitsArg, Bool.and_eq_true, all_id_map] at h
+      have hst : ∀ s ∈ normSteps steps, fitsStep S F lim s = true := by
+        intro s hs
+        simp only [normSteps, List.mem_map] at hs
+        obtain ⟨s0, hs0, rfl⟩ := hs
+        exact fitsStep_norm S F hF lim s0 (h.1 s0 hs0)
+      by_cases hc : pathIsT steps = true
+      · simp only [hc, if_true] at hw ⊢
+        rw [fitsArg, Bool.and_eq_true, all_id_map]
+        exact ⟨hst, by rw [hw]; exact h.2⟩
+      · have hc' : pathIsT steps = false := by simpa using hc
+        simp only [hc', Bool.false_eq_true, if_false] at hw ⊢
+        rw [fitsArg, Bool.and_eq_true, all_id_map]
+        exact ⟨hst, by rw [hw]; exact h.2⟩
+    | true, level, .seq k xs, h => by
+      rw [fitsArg] at h
+      simp only [if_true, Bool.and_eq_true, all_id_map] at h
+      rw [normArg, fitsArg]
+      simp only [if_true, Bool.and_eq_true, all_id_map, List.length_map]
+      refine ⟨h.1, ?_⟩
+      intro x hx
+      simp only [List.mem_map] at hx
+      obtain ⟨x0, hx0, rfl⟩ := hx
+      exact fitsArg_norm S F hF lim true level x0 (h.2 x0 hx0)
+    | false, level, .seq k xs, h => by
+      rw [fitsArg] at h
+      simp only [Bool.false_eq_true, if_false, Bool.and_eq_true, all_id_map] at h
+      rw [normArg, fitsArg]
+      simp only [Bool.false_eq_true, if_false, Bool.and_eq_true, all_id_map, List.length_map,
+        List.isEmpty_map]
+      refine ⟨h.1, ?_⟩
+      intro x hx
+      simp only [List.mem_map] at hx
+      obtain ⟨x0, hx0, rfl⟩ := hx
+      exact fitsArg_norm S F hF lim false (level - 1) x0 (h.2 x0 hx0)
+    | true, level, .dict kvs, h => by
+      rw [fitsArg] at h
+      simp only [if_true, all_id_map, Bool.and_eq_true] at h
+      rw [normArg, fitsArg]
+      simp only [if_true, all_id_map, Bool.and_eq_true]
+      intro p hp
+      simp only [List.mem_map] at hp
+      obtain ⟨p0, hp0, rfl⟩ := hp
+      exact ⟨fitsArg_norm S F hF lim true level p0.1 (h p0 hp0).1,
+        fitsArg_norm S F hF lim true level p0.2 (h p0 hp0).2⟩
+    | false, level, .dict kvs, h => by
+      rw [fitsArg] at h
+      simp only [Bool.false_eq_true, if_false, Bool.or_eq_true, Bool.and_eq_true, all_id_map] at h
+      rw [normArg, fitsArg]
+      simp only [Bool.false_eq_true, if_false, Bool.or_eq_true, Bool.and_eq_true, all_id_map,
+        List.length_map, List.isEmpty_map]
+      rcases h with h | ⟨h1, h3⟩
+      · exact Or.inl h
+      · refine Or.inr ⟨h1, ?_⟩
+        intro p hp
+        simp only [List.mem_map] at hp
+        obtain ⟨p0, hp0, rfl⟩ := hp
+        exact ⟨fitsArg_norm S F hF lim false (level - 1) p0.1 (h3 p0 hp0).1,
+          fitsArg_norm S F hF lim false (level - 1) p0.2 (h3 p0 hp0).2⟩
+    | plain, level, .sliceObj a b c, h => by
+      have hw := argWidth_norm S F hF (.sliceObj a b c)
+      rw [normArg] at hw ⊢
+      rw [fitsArg] at h ⊢
+      simp only [Bool.and_eq_true] at h ⊢
+      exact ⟨⟨⟨fitsArg_norm S F hF lim true level a h.1.1.1, fitsArg_norm S F hF lim true level b h.1.1.2⟩,
+        fitsArg_norm S F hF lim true level c h.1.2⟩, by rw [hw]; exact h.2⟩
+    | _, _, .bad _, h => by rw [normArg]; exact h
+    | _, _, .fill, h => by rw [normArg]; exact h
+    | _, _, .deep _, h => by rw [normArg]; exact h
+    | _, _, .dictMore _, h => by rw [normArg]; exact h
+  termination_by _ _ a => sizeOf a
+  decreasing_by all_goals c18_dec
+
+  theorem fitsItem_norm (S : ScalarOps L) (F : FmtFacts) (hF : F.pathRootAware = true) (lim : Limits) :
+      ∀ (i : Item L), fitsItem S F lim i = true → fitsItem S F lim (normItem i) = true
+    | .one a, h => by
+      rw [fitsItem] at h
+      rw [normItem, fitsItem]
+      exact fitsArg_norm S F hF lim false lim.maxlevel a h
+    | .slice a b c, h => by
+      rw [fitsItem_slice] at h
+      simp only [Bool.and_eq_true] at h
+      rw [normItem_slice, fitsItem_slice]
+      simp only [Bool.and_eq_true]
+      exact ⟨⟨fitsOpt_norm S F lim a (fun x _ hx => fitsArg_norm S F hF lim false lim.maxlevel x hx) h.1.1,
+        fitsOpt_norm S F lim b (fun x _ hx => fitsArg_norm S F hF lim false lim.maxlevel x hx) h.1.2⟩,
+        fitsOpt_norm S F lim c (fun x _ hx => fitsArg_norm S F hF lim false lim.maxlevel x hx) h.2⟩
+  termination_by i => sizeOf i
+  decreasing_by
+    all_goals simp_wf
+    all_goals (try subst_vars)
+    all_goals (first | omega | (simp <;> omega))
+
+  theorem fitsStep_norm (S : ScalarOps L) (F : FmtFacts) (hF : F.pathRootAware = true) (lim : Limits) :
+      ∀ (s : Step L), fitsStep S F lim s = true → fitsStep S F lim (normStep s) = true
+    | .attr _, h => by rw [normStep]; exact h
+    | .star, h => by rw [normStep]; exact h
+    | .starstar, h => by rw [normStep]; exact h
+    | .seg a, h => by
+      rw [fitsStep] at h
+      rw [normStep, fitsStep]
+      exact fitsArg_norm S F hF lim true 0 a h
+    | .item i, h => by
+      rw [fitsStep] at h
+      rw [normStep, fitsStep]
+      exact fitsItem_norm S F hF lim i h
+    | .items is, h => by
+      rw [fitsStep, all_id_map] at h
+      rw [normStep, fitsStep, all_id_map]
+      intro i hi
+      simp only [List.mem_map] at hi
+      obtain ⟨i0, hi0, rfl⟩ := hi
+      exact fitsItem_norm S F hF lim i0 (h i0 hi0)
+    | .call args kwargs, h => by
+      rw [fitsStep, Bool.and_eq_true, all_id_map, all_id_map] at h
+      have hk : ∀ p0 ∈ kwargs, fitsArg S F lim false lim.maxlevel (normArg p0.2) = true :=
+        fun p0 hp0 => fitsArg_norm S F hF lim false lim.maxlevel p0.2 (h.2 p0 hp0)
+      have hargs : ∀ a0 ∈ args, fitsArg S F lim false lim.maxlevel (normArg a0) = true :=
+        fun a0 ha0 => fitsArg_norm S F hF lim false lim.maxlevel a0 (h.1 a0 ha0)
+      rw [normStep, fitsStep, Bool.and_eq_true, all_id_map, all_id_map]
+      constructor
+      · intro a ha
+        simp only [List.mem_map] at ha
+        obtain ⟨a0, ha0, rfl⟩ := ha
+        exact hargs a0 ha0
+      · intro p hp
+        have hp' : p ∈ kwargs.map (fun p => (p.1, normArg p.2)) := by
+          unfold sortKw at hp; exact List.mem_mergeSort.mp hp
+        simp only [List.mem_map] at hp'
+        obtain ⟨p0, hp0, rfl⟩ := hp'
+        exact hk p0 hp0
+  termination_by s => sizeOf s
+  decreasing_by all_goals c18_dec
+end
+
+theorem fitsSteps_norm (S : ScalarOps L) (F : FmtFacts) (hF : F.pathRootAware = true) (lim : Limits)
+    (steps : List (Step L)) (h : fitsSteps S F lim steps = true) :
+    fitsSteps S F lim (normSteps steps) = true := by
+  unfold fitsSteps at h ⊢
+  rw [List.all_eq_true] at h ⊢
+  intro s hs
+  simp only [normSteps, List.mem_map] at hs
+  obtain ⟨s0, hs0, rfl⟩ := hs
+  exact fitsStep_norm S F hF lim s0 (h s0 hs0)
+
+/-! ### larger limits lose nothing either -/
+
+theorem le_fields {a b : Limits} (h : a.le b = true) :
+    a.maxlevel ≤ b.maxlevel ∧ a.maxtuple ≤ b.maxtuple ∧ a.maxlist ≤ b.maxlist ∧ a.maxdict ≤ b.maxdict ∧
+    a.maxset ≤ b.maxset ∧ a.maxfrozenset ≤ b.maxfrozenset ∧ a.maxstring ≤ b.maxstring ∧
+    a.maxlong ≤ b.maxlong ∧ a.maxother ≤ b.maxother := by
+  simp only [Limits.le, Bool.and_eq_true, decide_eq_true_eq] at h
+  obtain ⟨⟨⟨⟨⟨⟨⟨⟨h1, h2⟩, h3⟩, h4⟩, h5⟩, h6⟩, h7⟩, h8⟩, h9⟩ := h
+  exact ⟨h1, h2, h3, h4, h5, h6, h7, h8, h9⟩
+
+theorem maxOf_le {a b : Limits} (h : a.le b = true) (k : Kind) : a.maxOf k ≤ b.maxOf k := by
+  obtain ⟨_, h2, h3, h4, h5, h6, _, _, _⟩ := le_fields h
+  cases k <;> simp only [Limits.maxOf] <;> assumption
+
+theorem fitsOpt_mono (S : ScalarOps L) (F : FmtFacts) (lim lim' : Limits) (a : Option (Arg L))
+    (ih : ∀ x, a = some x → fitsArg S F lim false lim.maxlevel x = true →
+      fitsArg S F lim' false lim'.maxlevel x = true)
+    (h : fitsOpt S F lim a = true) : fitsOpt S F lim' a = true := by
+  cases a with
+  | none => rfl
+  | some x => exact ih x rfl h
+
+mutual
+  theorem fitsArg_mono (S : ScalarOps L) (F : FmtFacts) (lim lim' : Limits) (hle : lim.le lim' = true)
+      (hS : ∀ v, S.fits lim v = true → S.fits lim' v = true) :
+      ∀ (plain : Bool) (level level' : Nat) (a : Arg L), level ≤ level' →
+        fitsArg S F lim plain level a = true → fitsArg S F lim' plain level' a = true
+    | plain, level, level', .lit v, _, h => by
+      rw [fitsArg] at h ⊢
+      unfold fitsLit at h ⊢
+      cases plain
+      · simp only [Bool.false_eq_true, if_false, Bool.and_eq_true] at h ⊢
+        exact ⟨hS v h.1, h.2⟩
+      · exact h
+    | plain, level, level', .t root steps, _, h => by
+      have hmo := (le_fields hle).2.2.2.2.2.2.2.2
+      rw [fitsArg, Bool.and_eq_true, all_id_map] at h ⊢
+      refine ⟨fun s hs => fitsStep_mono S F lim lim' hle hS s (h.1 s hs), ?_⟩
+      cases plain
+      · simp only [Bool.false_or, decide_eq_true_eq] at h ⊢; exact Nat.le_trans h.2 hmo
+      · rfl
+    | plain, level, level', .path root steps, _, h => by
+      have hmo := (le_fields hle).2.2.2.2.2.2.2.2
+      rw [fitsArg, Bool.and_eq_true, all_id_map] at h ⊢
+      refine ⟨fun s hs => fitsStep_mono S F lim lim' hle hS s (h.1 s hs), ?_⟩
+      cases plain
+      · simp only [Bool.false_or, decide_eq_true_eq] at h ⊢; exact Nat.le_trans h.2 hmo
+      · rfl
+    | true, level, level', .seq k xs, hl, h => by
+      rw [fitsArg] at h ⊢
+      simp only [if_true, Bool.and_eq_true, all_id_map] at h ⊢
+      exact ⟨h.1, fun x hx => fitsArg_mono S F lim lim' hle hS true level level' x hl (h.2 x hx)⟩
+    | false, level, level', .seq k xs, hl, h => by
+      have hk := maxOf_le hle k
+      rw [fitsArg] at h ⊢
+      simp only [Bool.false_eq_true, if_false, Bool.and_eq_true, all_id_map, decide_eq_true_eq,
+        Bool.not_eq_true', Bool.and_eq_false_iff, beq_eq_false_iff_ne, ne_eq,
+        Bool.not_eq_false'] at h ⊢
+      obtain ⟨⟨h1, h2⟩, h3⟩ := h
+      refine ⟨⟨?_, Nat.le_trans h2 hk⟩,
+        fun x hx => fitsArg_mono S F lim lim' hle hS false (level - 1) (level' - 1) x (by omega) (h3 x hx)⟩
+      rcases h1 with h1 | h1
+      · exact Or.inl (by omega)
+      · exact Or.inr h1
+    | true, level, level', .dict kvs, hl, h => by
+      rw [fitsArg] at h ⊢
+      simp only [if_true, all_id_map, Bool.and_eq_true] at h ⊢
+      exact fun p hp => ⟨fitsArg_mono S F lim lim' hle hS true level level' p.1 hl (h p hp).1,
+        fitsArg_mono S F lim lim' hle hS true level level' p.2 hl (h p hp).2⟩
+    | false, level, level', .dict kvs, hl, h => by
+      have hd := (le_fields hle).2.2.2.1
+      rw [fitsArg] at h ⊢
+      simp only [Bool.false_eq_true, if_false, Bool.or_eq_true, Bool.and_eq_true, all_id_map,
+        decide_eq_true_eq, bne_iff_ne, ne_eq] at h ⊢
+      rcases h with h | ⟨⟨h1, h2⟩, h3⟩
+      · exact Or.inl h
+      · exact Or.inr ⟨⟨by omega, Nat.le_trans h2 hd⟩, fun p hp =>
+          ⟨fitsArg_mono S F lim lim' hle hS false (level - 1) (level' - 1) p.1 (by omega) (h3 p hp).1,
+           fitsArg_mono S F lim lim' hle hS false (level - 1) (level' - 1) p.2 (by omega) (h3 p hp).2⟩⟩
+    | plain, level, level', .sliceObj a b c, hl, h => by
+      have hmo := (le_fields hle).2.2.2.2.2.2.2.2
+      rw [fitsArg] at h ⊢
+      simp only [Bool.and_eq_true] at h ⊢
+      refine ⟨⟨⟨fitsArg_mono S F lim lim' hle hS true level level' a hl h.1.1.1,
+        fitsArg_mono S F lim lim' hle hS true level level' b hl h.1.1.2⟩,
+        fitsArg_mono S F lim lim' hle hS true level level' c hl h.1.2⟩, ?_⟩
+      cases plain
+      · simp only [Bool.false_or, decide_eq_true_eq] at h ⊢; exact Nat.le_trans h.2 hmo
+      · rfl
+    | _, _, _, .bad _, _, _ => by rw [fitsArg]
+    | _, _, _, .fill, _, _ => by rw [fitsArg]
+    | _, _, _, .deep _, _, _ => by rw [fitsArg]
+    | _, _, _, .dictMore _, _, _ => by rw [fitsArg]
+  termination_by _ _ _ a => sizeOf a
+  decreasing_by all_goals c18_dec
+
+  theorem fitsItem_mono (S : ScalarOps L) (F : FmtFacts) (lim lim' : Limits) (hle : lim.le lim' = true)
+      (hS : ∀ v, S.fits lim v = true → S.fits lim' v = true) :
+      ∀ (i : Item L), fitsItem S F lim i = true → fitsItem S F lim' i = true
+    | .one a, h => by
+      rw [fitsItem] at h ⊢
+      exact fitsArg_mono S F lim lim' hle hS false lim.maxlevel lim'.maxlevel a (le_fields hle).1 h
+    | .slice a b c, h => by
+      have hl := (le_fields hle).1
+      rw [fitsItem_slice] at h ⊢
+      simp only [Bool.and_eq_true] at h ⊢
+      exact ⟨⟨fitsOpt_mono S F lim lim' a (fun x _ hx =>
+          fitsArg_mono S F lim lim' hle hS false lim.maxlevel lim'.maxlevel x hl hx) h.1.1,
+        fitsOpt_mono S F lim lim' b (fun x _ hx =>
+          fitsArg_mono S F lim lim' hle hS false lim.maxlevel lim'.maxlevel x hl hx) h.1.2⟩,
+        fitsOpt_mono S F lim lim' c (fun x _ hx =>
+          fitsArg_mono S F lim lim' hle hS false lim.maxlevel lim'.maxlevel x hl hx) h.2⟩
+  termination_by i => sizeOf i
+  decreasing_by
+    all_goals simp_wf
+    all_goals (try subst_vars)
+    all_goals (first | omega | (simp <;> omega))
+
+  theorem fitsStep_mono (S : ScalarOps L) (F : FmtFacts) (lim lim' : Limits) (hle : lim.le lim' = true)
+      (hS : ∀ v, S.fits lim v = true → S.fits lim' v = true) :
+      ∀ (s : Step L), fitsStep S F lim s = true → fitsStep S F lim' s = true
+    | .attr _, _ => by rw [fitsStep]
+    | .star, _ => by rw [fitsStep]
+    | .starstar, _ => by rw [fitsStep]
+    | .seg a, h => by
+      rw [fitsStep] at h ⊢
+      exact fitsArg_mono S F lim lim' hle hS true 0 0 a (Nat.le_refl 0) h
+    | .item i, h => by
+      rw [fitsStep] at h ⊢
+      exact fitsItem_mono S F lim lim' hle hS i h
+    | .items is, h => by
+      rw [fitsStep, all_id_map] at h ⊢
+      exact fun i hi => fitsItem_mono S F lim lim' hle hS i (h i hi)
+    | .call args kwargs, h => by
+      have hl := (le_fields hle).1
+      rw [fitsStep, Bool.and_eq_true, all_id_map, all_id_map] at h ⊢
+      exact ⟨fun a ha => fitsArg_mono S F lim lim' hle hS false lim.maxlevel lim'.maxlevel a hl (h.1 a ha),
+        fun p hp => fitsArg_mono S F lim lim' hle hS false lim.maxlevel lim'.maxlevel p.2 hl (h.2 p hp)⟩
+  termination_by s => sizeOf s
+  decreasing_by all_goals c18_dec
+end
+
+theorem fitsSteps_mono (S : ScalarOps L) (F : FmtFacts) (lim lim' : Limits) (hle : lim.le lim' = true)
+    (hS : ∀ v, S.fits lim v = true → S.fits lim' v = true) (steps : List (Step L))
+    (h : fitsSteps S F lim steps = true) : fitsSteps S F lim' steps = true := by
+  unfold fitsSteps at h ⊢
+  rw [List.all_eq_true] at h ⊢
+  exact fun s hs => fitsStep_mono S F lim lim' hle hS s (h s hs)
+
+/-- what `reprlib` leaves in place of a cut scalar / a dropped element is not an expression
+    for the value -/
+theorem parseArg_bad (s : String) : parseArg [(Tok.bad s : Tok L)] = none := by
+  rw [parseArg]
+  all_goals simp
+
+theorem parseArg_fill : parseArg [(Tok.fill : Tok L)] = none := by
+  rw [parseArg]
+  all_goals simp
 
 end roundtrip
 
+/-- the scalars of Python are printed in full under larger limits too -/
+theorem pyScalar_fits_mono (lim lim' : Limits) (hle : lim.le lim' = true) (v : Scalar)
+    (h : pyScalar.fits lim v = true) : pyScalar.fits lim' v = true := by
+  obtain ⟨_, _, _, _, _, _, hs, hl, ho⟩ := le_fields hle
+  cases v <;> simp only [pyScalar, Scalar.fits, decide_eq_true_eq, Bool.and_eq_true,
+    Bool.or_eq_true] at h ⊢ <;> omega
+
 /-! ### facts -/
 
-theorem wf_fmt {F : Facts} (h : WF F = true) : F.fmt = F1 := by
+theorem wf_parts {F : Facts} (h : WF F = true) :
+    wfFmt F = true ∧ wfPickle F = true ∧ wfSeq F = true ∧ wfLimits F = true := by
   simp only [WF, Bool.and_eq_true] at h
-  obtain ⟨⟨⟨⟨⟨⟨⟨⟨h1, h2⟩, h3⟩, h4⟩, _⟩, _⟩, _⟩, _⟩, _⟩ := h
+  exact ⟨h.1.1.1, h.1.1.2, h.1.2, h.2⟩
+
+theorem wf_fmt {F : Facts} (h : WF F = true) : F.fmt = F1 := by
+  have h' := (wf_parts h).1
+  simp only [wfFmt, Bool.and_eq_true] at h'
+  obtain ⟨⟨⟨h1, h2⟩, h3⟩, h4⟩ := h'
   cases hf : F.fmt with
   | mk a b c d =>
     rw [hf] at h1 h2 h3 h4; simp only at h1 h2 h3 h4; subst h1; subst h2; subst h3; subst h4; rfl
 
+/-- the limits the model reads are at least `minLimit` -/
+theorem wf_limits_ge {F : Facts} (h : WF F = true) : (Limits.uniform minLimit).le F.lim = true := by
+  have h' := (wf_parts h).2.2.2
+  simp only [wfLimits, Bool.and_eq_true, List.all_eq_true] at h'
+  have hn : ∀ n ∈ modelLimitNames, minLimit ≤ (F.limitTable.lookup n).getD 0 := by
+    intro n hn
+    have := h'.1.1 n (by simp [hn])
+    cases hl : F.limitTable.lookup n with
+    | none => rw [hl] at this; simp at this
+    | some v => rw [hl] at this; simpa using this
+  simp only [Limits.le, Limits.uniform, Facts.lim, limitsOf, Bool.and_eq_true]
+  refine ⟨⟨⟨⟨⟨⟨⟨⟨?_, ?_⟩, ?_⟩, ?_⟩, ?_⟩, ?_⟩, ?_⟩, ?_⟩, ?_⟩
+  · exact decide_eq_true (hn "maxlevel" (by decide))
+  · exact decide_eq_true (hn "maxtuple" (by decide))
+  · exact decide_eq_true (hn "maxlist" (by decide))
+  · exact decide_eq_true (hn "maxdict" (by decide))
+  · exact decide_eq_true (hn "maxset" (by decide))
+  · exact decide_eq_true (hn "maxfrozenset" (by decide))
+  · exact decide_eq_true (hn "maxstring" (by decide))
+  · exact decide_eq_true (hn "maxlong" (by decide))
+  · exact decide_eq_true (hn "maxother" (by decide))
+
 theorem pickle_roundtrip {L : Type} (F : Facts) (hwf : WF F = true) (root : String)
     (hr : root ∈ ["T", "S", "A"]) (steps : List (Step L)) :
     (getstate F.getstateRoots root steps).bind (setstate F.setstateRoots) = some (root, steps) := by
-  simp only [WF, Bool.and_eq_true, List.all_eq_true] at hwf
-  have := hwf.1.1.1.1.2 root hr
-  obtain ⟨h1, h2⟩ := this
+  have h' := (wf_parts hwf).2.1
+  simp only [wfPickle, List.all_eq_true, Bool.and_eq_true] at h'
+  obtain ⟨h1, h2⟩ := h' root hr
   simp only [List.contains_eq_mem, decide_eq_true_eq] at h1 h2
   simp [getstate, setstate, h1, h2]
 
